@@ -553,9 +553,11 @@ Proof.
     + destruct (pt_idl x); [reflexivity|discriminate].
   - intros Hc. apply orb_true_iff in H10 as [H10|H10].
     + rewrite Hc, str_eqb_refl in H10. discriminate.
-    + apply andb_true_iff in H10 as [Ha Hb]. split; [apply Opc_proofs.nodupb_NoDup; exact Ha|].
-      intros kr Hkr Hin. rewrite forallb_forall in Hb. specialize (Hb kr Hkr).
-      apply negb_true_iff in Hb. apply mem_str_In in Hin. congruence.
+    + apply andb_true_iff in H10 as [H10 Hd]. apply andb_true_iff in H10 as [Ha Hb].
+      split; [apply Opc_proofs.nodupb_NoDup; exact Ha|]. split.
+      * intros kr Hkr Hin. rewrite forallb_forall in Hb. specialize (Hb kr Hkr).
+        apply negb_true_iff in Hb. apply mem_str_In in Hin. congruence.
+      * intros r x' Hr Hf E. rewrite forallb_forall in Hd. specialize (Hd r Hr). rewrite Hf, E, str_eqb_refl in Hd. discriminate.
 Qed.
 
 Lemma reach_iter_parts s p x : reach_part s p x -> In x (iter_parts s).
@@ -1136,7 +1138,8 @@ Hypothesis En : pt_name x' = pt_name x.
 Hypothesis Ec : pt_ct x' = pt_ct x.
 Hypothesis Hgood : good_part (length (st_parts s)) x'.
 Hypothesis Hnp : p <> st_pres s.
-Hypothesis Hnm : pt_ct x <> ct_slide_master.
+Hypothesis Hmaster : pt_ct x = ct_slide_master -> forall rid lp, In rid (pt_idl x') ->
+  related_part rid (pt_rels x') = Ok lp -> In rid (pt_idl x) /\ related_part rid (pt_rels x) = Ok lp.
 Hypothesis Hmf : type_filter rt_slide_master (pt_rels x') = type_filter rt_slide_master (pt_rels x).
 Hypothesis HpN : ~ In p N.
 Hypothesis Hedges : forall q, In q (int_targets (pt_rels x')) ->
@@ -1193,7 +1196,7 @@ Proof.
   intros Hn Hy'. rewrite sp_getp in Hy'. destruct (Nat.eqb_spec p n) as [<-|Hne]; [contradiction|exact Hy'].
 Qed.
 
-Theorem inv_setp : Inv T s'.
+Theorem inv_setp_gen : Inv T s'.
 Proof.
   assert (Hnames : forall q, name_of (st_parts s') q = name_of (st_parts s) q)
     by (intros q; apply (name_of_setp s p x x' q Hx En)).
@@ -1223,7 +1226,10 @@ Proof.
     + intros Hs j q Hj. rewrite Hnames. apply Hnm'; auto.
   - intros m mx rid lp lx m' Hm Hct Hrid Hlp Hlx Hm'.
     rewrite sp_getp in Hm. destruct (Nat.eqb_spec p m) as [<-|Hne].
-    { injection Hm as <-. rewrite Ec in Hct. contradiction. }
+    { injection Hm as <-. rewrite Ec in Hct. destruct (Hmaster Hct rid lp Hrid Hlp) as [Hrid0 Hlp0].
+      rewrite sp_getp in Hlx. destruct (Nat.eqb_spec p lp) as [<-|Hne2].
+      - injection Hlx as <-. rewrite (part_with_reltype_filter _ _ _ Hmf) in Hm'. eapply (iv_master T s HI); eauto.
+      - eapply (iv_master T s HI); eauto. }
     rewrite sp_getp in Hlx. destruct (Nat.eqb_spec p lp) as [<-|Hne2].
     + injection Hlx as <-. rewrite (part_with_reltype_filter _ _ _ Hmf) in Hm'.
       eapply (iv_master T s HI); eauto.
@@ -1241,6 +1247,22 @@ Proof.
     + intros pp q Hpp. apply F3; auto.
 Qed.
 End SetPart.
+
+Theorem inv_setp T s p x x' N : tables_ok T -> Inv T s -> getp s p = Some x ->
+  pt_name x' = pt_name x -> pt_ct x' = pt_ct x -> good_part (length (st_parts s)) x' ->
+  p <> st_pres s -> pt_ct x <> ct_slide_master ->
+  type_filter rt_slide_master (pt_rels x') = type_filter rt_slide_master (pt_rels x) -> ~ In p N ->
+  (forall q, In q (int_targets (pt_rels x')) -> In q (int_targets (pt_rels x)) \/ reachP s q \/ In q N \/ ~ reachP s p) ->
+  (forall n y q, In n N -> getp s n = Some y -> In q (int_targets (pt_rels y)) -> reachP s q \/ In q N) ->
+  (forall n y, In n N -> ~ reachP s n -> getp s n = Some y ->
+     new_ok T s y /\ baseURI (pt_name y) <> s_slides_dir /\ pt_name y <> n_notes_master /\ pt_name y <> n_core) ->
+  (forall n m y z, In n N -> In m N -> n <> m -> ~ reachP s n -> ~ reachP s m ->
+     getp s n = Some y -> getp s m = Some z -> pt_name y <> pt_name z) ->
+  Inv T (setp s p x').
+Proof.
+  intros HT HI Hx En Ec G Hnp Hnm Hmf HpN He H1 H2 H3.
+  apply (inv_setp_gen T s p x x' N); auto. intros E. contradiction.
+Qed.
 
 (* ------------------------------------------------------------------------------ *)
 (** * A new part object nobody relates to yet *)
@@ -1407,10 +1429,10 @@ Proof.
 Qed.
 
 Lemma good_add_rel n x rid t g :
-  good_part n x -> ~ In rid (map rr_id (pt_rels x)) -> (forall q, g = TInt q -> q < n) ->
+  good_part n x -> pt_ct x <> ct_slide_master -> ~ In rid (map rr_id (pt_rels x)) -> (forall q, g = TInt q -> q < n) ->
   good_part n (with_rels x (pt_rels x ++ [mkR rid t g None])).
 Proof.
-  intros [H1 H2 H3 H4 H5 H6 H7 H8 H9 H10] Hf Hq. constructor; cbn [pt_name pt_base pt_rels pt_ct pt_idl pt_refs pt_slots with_rels]; auto.
+  intros [H1 H2 H3 H4 H5 H6 H7 H8 H9 H10] Hm Hf Hq. constructor; cbn [pt_name pt_base pt_rels pt_ct pt_idl pt_refs pt_slots with_rels]; auto.
   - intros q. rewrite int_targets_app. intros Hin. apply in_app_or in Hin as [Hin|Hin]; auto.
     destruct g; simpl in Hin; [destruct Hin as [<-|[]]; auto|destruct Hin].
   - rewrite map_app. simpl. apply Ids_proofs.NoDup_snoc; auto.
@@ -1419,6 +1441,7 @@ Proof.
   - intros k r x' Hin Hk Hfr. rewrite find_rel_app_old in Hfr by (apply (H6 (k, r)); auto). eapply H7; eauto.
   - intros r Hr. destruct (H8 r Hr) as (x' & Hx' & Ht). exists x'. split; auto.
     rewrite find_rel_app_old; auto. apply find_rel_In in Hx' as [Hin <-]. apply in_map. auto.
+  - intros Hc. contradiction.
 Qed.
 
 Lemma all_refs_with_refs x l : all_refs (with_refs x l) = map (fun r => (k_id, r)) (pt_idl x) ++ l ++ slot_refs (pt_slots x).
@@ -1790,11 +1813,17 @@ End Rename.
 Lemma Forall2_impl {A B} (P Q : A -> B -> Prop) l l' : (forall a b, P a b -> Q a b) -> Forall2 P l l' -> Forall2 Q l l'.
 Proof. intros H. induction 1; constructor; auto. Qed.
 
+Lemma with_name_same x : with_name x (pt_name x) = x.
+Proof. destruct x; reflexivity. Qed.
+
 Theorem access_inv T s : tables_ok T -> Inv T s ->
-  exists s1, m_access_slides s = (s1, Ok tt) /\ Inv T s1 /\ st_slides s1 = true /\ st_pres s1 = st_pres s.
+  exists s1, m_access_slides s = (s1, Ok tt) /\ Inv T s1 /\ st_slides s1 = true /\ st_pres s1 = st_pres s /\
+    st_mrid s1 = st_mrid s /\ length (st_parts s1) = length (st_parts s) /\
+    forall q x, getp s q = Some x -> exists nm, getp s1 q = Some (with_name x nm).
 Proof.
   intros HT HI. unfold m_access_slides. destruct (st_slides s) eqn:Es.
-  - exists s. auto.
+  - exists s. split; [reflexivity|]. split; [exact HI|]. split; [exact Es|]. split; [reflexivity|].
+    split; [reflexivity|]. split; [reflexivity|]. intros q x Hx. exists (pt_name x). rewrite with_name_same. exact Hx.
   - destruct (iv_slides T s HI) as (pp & tg & Hpp & HF & Hnd & Hdir & Hall & _). rewrite Hpp.
     rewrite (resolvable_prefix_all _ _ _ HF).
     assert (Hres : Ids_proofs.resolves (prels_idx (pt_rels pp)) (pt_idl pp) tg).
@@ -1803,14 +1832,18 @@ Proof.
     { rewrite map_length. intros q Hin. clear - HF Hin Hpp HI. induction HF; [destruct Hin|]. destruct Hin as [<-|Hin]; auto.
       apply related_part_target in H. exact (gp_tgts _ _ (iv_parts T s HI _ pp Hpp) _ H). }
     destruct (Ids_proofs.rename_listed _ _ _ (map pt_name (st_parts s)) Hres Hnd Hrange) as (names' & E & Hl & H3 & H4 & _).
-    rewrite E. eexists. split; [reflexivity|]. split; [|split; reflexivity].
-    rewrite map_length in Hl.
-    apply (inv_rename T s HT HI pp tg names'); auto.
+    rewrite E. eexists. split; [reflexivity|]. rewrite map_length in Hl.
+    split; [apply (inv_rename T s HT HI pp tg names'); auto|]. split; [reflexivity|]. split; [reflexivity|].
+    split; [reflexivity|]. split; [apply (rn_len s names' Hl)|].
+    intros q x0 Hx0. rewrite (rn_getp s names' Hl q), Hx0. eauto.
 Qed.
 
 (** prs.slides at i: a slide part the presentation part reaches *)
+Definition listed (s : state) (sp : nat) : Prop :=
+  exists pp rid, getp s (st_pres s) = Some pp /\ related_part rid (pt_rels pp) = Ok sp.
+
 Definition slidep (s : state) (sp : nat) : Prop :=
-  st_slides s = true /\ reachP s sp /\ sp <> st_pres s /\ exists x, getp s sp = Some x /\ pt_ct x = ct_slide.
+  st_slides s = true /\ reachP s sp /\ sp <> st_pres s /\ (exists x, getp s sp = Some x /\ pt_ct x = ct_slide) /\ listed s sp.
 
 Lemma pres_reach T s : Inv T s -> reachP s (st_pres s).
 Proof.
@@ -1826,7 +1859,7 @@ Theorem slide_inv T s i : tables_ok T -> Inv T s ->
   exists s1, Inv T s1 /\ st_pres s1 = st_pres s /\
     ((exists e, m_slide i s = (s1, Err e)) \/ (exists sp, m_slide i s = (s1, Ok sp) /\ slidep s1 sp)).
 Proof.
-  intros HT HI. destruct (access_inv T s HT HI) as (s1 & E & HI1 & Hs1 & Hp1).
+  intros HT HI. destruct (access_inv T s HT HI) as (s1 & E & HI1 & Hs1 & Hp1 & _).
   exists s1. split; auto. split; auto. unfold m_slide, bindM. rewrite E. unfold getS.
   destruct (iv_pres T s1 HI1) as (pp & Hpp & Hc). rewrite (m_part_run s1 _ pp Hpp).
   destruct (nth_error (pt_idl pp) i) as [rid|] eqn:En; [|left; eexists; reflexivity].
@@ -1835,10 +1868,11 @@ Proof.
   { apply related_part_target in Er. exact (gp_tgts _ _ (iv_parts T s1 HI1 _ pp Hpp) _ Er). }
   destruct (getp_some s1 sp Hsp) as (x & Hx). rewrite (m_class_run s1 sp ct_slide x Hx).
   destruct (str_eqb_spec (pt_ct x) ct_slide) as [Ec|Ec]; [|left; eexists; reflexivity].
-  right. exists sp. split; [reflexivity|]. split; auto. split; [|split].
+  right. exists sp. split; [reflexivity|]. split; auto. split; [|split; [|split]].
   - eapply rp1; [apply (pres_reach T s1 HI1)|exact Hpp|]. apply related_part_target in Er. exact Er.
   - intros ->. rewrite Hpp in Hx. injection Hx as <-. apply Hc. rewrite Ec. simpl. auto.
   - eauto.
+  - exists pp, rid. auto.
 Qed.
 
 (* ------------------------------------------------------------------------------ *)
@@ -1902,7 +1936,7 @@ Qed.
 Lemma MH_access T s : tables_ok T -> Inv T s ->
   MH T m_access_slides s (fun _ s1 => st_slides s1 = true /\ st_pres s1 = st_pres s).
 Proof.
-  intros HT HI. destruct (access_inv T s HT HI) as (s1 & E & HI1 & Hs & Hp). unfold MH. rewrite E. cbn. split; auto.
+  intros HT HI. destruct (access_inv T s HT HI) as (s1 & E & HI1 & Hs & Hp & _). unfold MH. rewrite E. cbn. split; auto.
 Qed.
 
 Lemma fst_fin {A} (f : A -> outcome) (m : M A) s : fst (fin f m s) = fst (m s).
@@ -1920,7 +1954,7 @@ Lemma editable_not_master s p x : editable s p x -> pt_ct x <> ct_slide_master.
 Proof. intros (_ & _ & [E|E]); rewrite E; [apply ct_slide_ne_master|apply ct_notes_ne_master]. Qed.
 
 Lemma slidep_editable s sp : slidep s sp -> exists x, editable s sp x /\ pt_ct x = ct_slide /\ reachP s sp.
-Proof. intros (_ & Hr & Hn & x & Hx & Ec). exists x. split; [split; auto|auto]. Qed.
+Proof. intros (_ & Hr & Hn & (x & Hx & Ec) & _). exists x. split; [split; auto|auto]. Qed.
 
 (** ** the operations that only touch flags, slots or nothing *)
 
@@ -1946,4 +1980,1940 @@ Proof.
   apply (inv_setp T s1 sp x _ []); auto; try (intros; contradiction);
     try (rewrite Ec; apply ct_slide_ne_master).
   apply good_add_slot; [apply (iv_parts T s1 HI1 sp x Hx)|rewrite Ec; apply ct_slide_ne_master].
+Qed.
+
+Lemma listed_reach T s sp : Inv T s -> listed s sp -> reachP s sp.
+Proof.
+  intros HI (pp & rid & Hpp & Hr). eapply rp1; [apply (pres_reach T s HI)|exact Hpp|].
+  apply related_part_target in Hr. exact Hr.
+Qed.
+
+Lemma listed_setp s p x sp : p <> st_pres s -> listed s sp -> listed (setp s p x) sp.
+Proof.
+  intros Hn (pp & rid & Hpp & Hr). exists pp, rid. split; auto.
+  change (st_pres (setp s p x)) with (st_pres s). rewrite getp_setp_other; auto.
+Qed.
+
+(* ------------------------------------------------------------------------------ *)
+(** * Hyperlinks and slide jumps *)
+
+Lemma slot_refs_split slots : forall j cr w rid, nth_error slots j = Some cr -> slot_get w cr = Some rid ->
+  exists l1 l2, slot_refs slots = l1 ++ (k_id, rid) :: l2 /\
+                slot_refs (Ids.set_nth j (slot_set w cr None) slots) = l1 ++ l2.
+Proof.
+  induction slots as [|a slots IH]; intros [|j] cr w rid Hn Hg; simpl in Hn; try discriminate.
+  - injection Hn as ->. destruct cr as [c r]. destruct w; simpl in Hg; subst.
+    + exists [], (opt_ref r ++ slot_refs slots). split; reflexivity.
+    + exists (opt_ref c), (slot_refs slots). simpl. unfold slot_refs. simpl. rewrite <- !app_assoc. split; reflexivity.
+  - destruct (IH j cr w rid Hn Hg) as (l1 & l2 & E1 & E2).
+    exists ((opt_ref (fst a) ++ opt_ref (snd a)) ++ l1), l2. simpl. unfold slot_refs in *. simpl.
+    rewrite E1, E2, <- !app_assoc. split; reflexivity.
+Qed.
+
+Lemma slot_refs_set_subset slots : forall j cr w o kr, nth_error slots j = Some cr ->
+  In kr (slot_refs (Ids.set_nth j (slot_set w cr o) slots)) ->
+  In kr (slot_refs slots) \/ exists r, o = Some r /\ kr = (k_id, r).
+Proof.
+  induction slots as [|a slots IH]; intros [|j] cr w o kr Hn Hin; simpl in Hn; try discriminate.
+  - injection Hn as ->. destruct cr as [c r]. unfold slot_refs in *. simpl in *.
+    apply in_app_or in Hin as [Hin|Hin]; [|left; apply in_or_app; right; exact Hin].
+    destruct w; simpl in Hin; apply in_app_or in Hin as [Hin|Hin].
+    + destruct o; simpl in Hin; [destruct Hin as [<-|[]]; right; eauto|destruct Hin].
+    + left. apply in_or_app. left. apply in_or_app. right. exact Hin.
+    + left. apply in_or_app. left. apply in_or_app. left. exact Hin.
+    + destruct o; simpl in Hin; [destruct Hin as [<-|[]]; right; eauto|destruct Hin].
+  - unfold slot_refs in *. simpl in *. apply in_app_or in Hin as [Hin|Hin]; [left; apply in_or_app; left; exact Hin|].
+    destruct (IH j cr w o kr Hn Hin) as [H|H]; [left; apply in_or_app; right; exact H|right; exact H].
+Qed.
+
+Lemma find_rel_filter rid r rs : r <> rid ->
+  find_rel r (filter (fun a => negb (str_eqb (rr_id a) rid)) rs) = find_rel r rs.
+Proof.
+  intros Hne. induction rs as [|a rs IH]; simpl; auto.
+  destruct (str_eqb_spec (rr_id a) rid) as [E|E]; simpl.
+  - destruct (str_eqb_spec (rr_id a) r) as [E'|E']; [congruence|exact IH].
+  - destruct (str_eqb_spec (rr_id a) r); [reflexivity|exact IH].
+Qed.
+
+Lemma filter_count_app {A} (f : A -> bool) a b : length (filter f (a ++ b)) = length (filter f a) + length (filter f b).
+Proof. rewrite filter_app, app_length. reflexivity. Qed.
+
+(** clearing a link slot: drop_rel, then the element goes *)
+Lemma good_clear_slot n x j cr w rid x1 :
+  good_part n x -> pt_ct x <> ct_slide_master -> nth_error (pt_slots x) j = Some cr -> slot_get w cr = Some rid ->
+  drop_rel x rid = Ok x1 ->
+  good_part n (with_slots x1 (Ids.set_nth j (slot_set w cr None) (pt_slots x1))) /\
+  incl (pt_rels x1) (pt_rels x) /\ pt_slots x1 = pt_slots x /\ pt_name x1 = pt_name x /\ pt_ct x1 = pt_ct x /\
+  type_filter rt_slide_master (pt_rels x1) = type_filter rt_slide_master (pt_rels x).
+Proof.
+  intros G Hm Hn Hg Hd. pose proof G as [H1 H2 H3 H4 H5 H6 H7 H8 H9 H10].
+  destruct (slot_refs_split (pt_slots x) j cr w rid Hn Hg) as (l1 & l2 & E1 & E2).
+  set (A := map (fun r => (k_id, r)) (pt_idl x) ++ pt_refs x).
+  assert (Eall : all_refs x = A ++ l1 ++ (k_id, rid) :: l2).
+  { unfold all_refs, A. rewrite E1, <- app_assoc. reflexivity. }
+  assert (Hsub : forall kr, In kr (A ++ l1 ++ l2) -> In kr (all_refs x)).
+  { intros kr Hin. rewrite Eall. apply in_app_or in Hin as [Hin|Hin]; [apply in_or_app; auto|].
+    apply in_or_app. right. apply in_app_or in Hin as [Hin|Hin]; apply in_or_app; [left|right; right]; auto. }
+  assert (Hrid_slot : In rid (slot_rids x)).
+  { unfold slot_rids. rewrite E1, map_app. apply in_or_app. right. simpl. auto. }
+  destruct (H8 rid Hrid_slot) as (rl & Hrl & Hlt).
+  apply drop_rel_spec in Hd as [[Hc ->]|(Hc & Hkey & ->)].
+  - (* the relationship stays *)
+    split; [|repeat split; auto; apply incl_refl].
+    constructor; cbn [pt_name pt_base pt_rels pt_ct pt_idl pt_refs pt_slots with_slots]; auto.
+    + intros kr Hkr. apply H6. apply Hsub. unfold all_refs in Hkr. cbn [pt_idl pt_refs pt_slots with_slots] in Hkr.
+      rewrite E2 in Hkr. unfold A. rewrite <- app_assoc. exact Hkr.
+    + intros k r x' Hkr. apply H7. apply Hsub. unfold all_refs in Hkr. cbn [pt_idl pt_refs pt_slots with_slots] in Hkr.
+      rewrite E2 in Hkr. unfold A. rewrite <- app_assoc. exact Hkr.
+    + intros r Hr. apply H8. unfold slot_rids in *. cbn [pt_slots with_slots] in Hr. rewrite E2 in Hr. rewrite E1.
+      rewrite map_app in *. apply in_app_or in Hr as [Hr|Hr]; apply in_or_app; [left|right; right]; auto.
+    + intros Hc'. contradiction.
+  - (* the relationship goes: nothing else names it *)
+    cbn [pt_rels pt_slots pt_name pt_ct with_rels].
+    assert (Hnone : forall k, ~ In (k, rid) (A ++ l1 ++ l2)).
+    { intros k Hin. destruct (Opc_proofs.str_eq_dec k k_id) as [->|Hk].
+      - unfold ref_count in Hc. rewrite Eall in Hc.
+        assert (E : A ++ l1 ++ (k_id, rid) :: l2 = (A ++ l1) ++ [(k_id, rid)] ++ l2) by (rewrite <- app_assoc; reflexivity).
+        assert (E1' : length (filter (is_id_ref rid) [(k_id, rid)]) = 1).
+        { unfold is_id_ref. cbn [filter fst snd]. rewrite !str_eqb_refl. reflexivity. }
+        rewrite E, !filter_count_app, E1' in Hc.
+        assert (Hpos : 1 <= length (filter (is_id_ref rid) (A ++ l1)) + length (filter (is_id_ref rid) l2)).
+        { rewrite app_assoc in Hin. apply in_app_or in Hin as [Hin|Hin].
+          - assert (In (k_id, rid) (filter (is_id_ref rid) (A ++ l1))).
+            { apply filter_In. split; auto. unfold is_id_ref. cbn. rewrite !str_eqb_refl. reflexivity. }
+            destruct (filter (is_id_ref rid) (A ++ l1)); [destruct H|simpl; lia].
+          - assert (In (k_id, rid) (filter (is_id_ref rid) l2)).
+            { apply filter_In. split; auto. unfold is_id_ref. cbn. rewrite !str_eqb_refl. reflexivity. }
+            destruct (filter (is_id_ref rid) l2); [destruct H|simpl; lia]. }
+        rewrite ?filter_count_app in Hpos. simpl in Hc. lia.
+      - apply (H7 k rid rl (Hsub _ Hin) Hk Hrl). exact Hlt. }
+    split; [|repeat split; auto].
+    2:{ intros r Hr. apply filter_In in Hr. tauto. }
+    2:{ assert (Hty : forall a, In a (pt_rels x) -> rr_id a = rid -> str_eqb (rr_type a) rt_slide_master = false).
+        { intros a Ha Ea. pose proof (find_rel_NoDup _ a H4 Ha) as Hf. rewrite Ea, Hrl in Hf. injection Hf as <-.
+          destruct Hlt as [E|[E|[]]]; rewrite <- E; vm_compute; reflexivity. }
+        unfold type_filter. clear - Hty. induction (pt_rels x) as [|a rs IH]; simpl; auto.
+        destruct (str_eqb_spec (rr_id a) rid) as [E|E]; simpl.
+        - rewrite (Hty a (or_introl eq_refl) E). apply IH. intros b Hb. apply Hty. right; auto.
+        - destruct (str_eqb (rr_type a) rt_slide_master); [f_equal|]; apply IH; intros b Hb; apply Hty; right; auto. }
+    constructor; cbn [pt_name pt_base pt_rels pt_ct pt_idl pt_refs pt_slots with_slots with_rels]; auto.
+    + intros q Hq. apply H3. apply int_targets_In in Hq as (r & Hr & Et). apply filter_In in Hr as [Hr _].
+      apply int_targets_In. eauto.
+    + clear - H4. induction (pt_rels x) as [|a rs IH]; simpl; [constructor|]. simpl in H4. inversion H4; subst.
+      destruct (negb (str_eqb (rr_id a) rid)); simpl; auto. constructor; auto.
+      intros Hin. apply H1. apply in_map_iff in Hin as (r & E & Hr). apply filter_In in Hr as [Hr _].
+      rewrite <- E. apply in_map. exact Hr.
+    + intros r Hr. apply filter_In in Hr as [Hr _]. auto.
+    + intros kr Hkr. unfold all_refs in Hkr. cbn [pt_idl pt_refs pt_slots with_slots with_rels] in Hkr.
+      rewrite E2 in Hkr. assert (Hkr' : In kr (A ++ l1 ++ l2)) by (unfold A; rewrite <- app_assoc; exact Hkr).
+      pose proof (H6 kr (Hsub kr Hkr')) as Hk. apply in_map_iff in Hk as (r & Er & Hr).
+      apply in_map_iff. exists r. split; auto. apply filter_In. split; auto.
+      apply negb_true_iff. apply Opc_proofs.str_eqb_neq. intros E. destruct kr as [k r0]. cbn [snd] in Er.
+      apply (Hnone k). rewrite <- E, Er. exact Hkr'.
+    + intros k r x' Hkr Hk Hf. unfold all_refs in Hkr. cbn [pt_idl pt_refs pt_slots with_slots with_rels] in Hkr.
+      rewrite E2 in Hkr. assert (Hkr' : In (k, r) (A ++ l1 ++ l2)) by (unfold A; rewrite <- app_assoc; exact Hkr).
+      assert (Hne : r <> rid) by (intros ->; exact (Hnone k Hkr')).
+      rewrite find_rel_filter in Hf by exact Hne. apply (H7 k r x' (Hsub _ Hkr') Hk Hf).
+    + intros r Hr. unfold slot_rids in Hr. cbn [pt_slots with_slots with_rels] in Hr. rewrite E2 in Hr.
+      assert (Hin' : In (k_id, r) (A ++ l1 ++ l2)).
+      { apply in_map_iff in Hr as ([k0 r0] & Er & Hr). cbn [snd] in Er. subst r0.
+        assert (k0 = k_id).
+        { assert (Hs : In (k0, r) (slot_refs (pt_slots x))).
+          { rewrite E1. apply in_app_or in Hr as [Hr|Hr]; apply in_or_app; [left|right; right]; auto. }
+          clear - Hs. unfold slot_refs in Hs. apply in_flat_map in Hs as (cr0 & _ & Hs).
+          apply in_app_or in Hs as [Hs|Hs]; [destruct (fst cr0)|destruct (snd cr0)]; simpl in Hs;
+            try (destruct Hs as [[= <- _]|[]]; reflexivity); destruct Hs. }
+        subst k0. apply in_or_app. right. exact Hr. }
+      assert (Hne : r <> rid) by (intros ->; exact (Hnone k_id Hin')).
+      rewrite find_rel_filter by exact Hne. apply H8. unfold slot_rids. rewrite E1.
+      unfold slot_rids in Hr. cbn [pt_slots with_slots with_rels] in Hr.
+      rewrite map_app in *. apply in_app_or in Hr as [Hr|Hr]; apply in_or_app; [left|right; right]; auto.
+    + intros Hc'. contradiction.
+Qed.
+
+Lemma good_fill_slot n x j cr w rid :
+  good_part n x -> pt_ct x <> ct_slide_master -> nth_error (pt_slots x) j = Some cr ->
+  (exists r, find_rel rid (pt_rels x) = Some r /\ In (rr_type r) link_types) ->
+  good_part n (with_slots x (Ids.set_nth j (slot_set w cr (Some rid)) (pt_slots x))).
+Proof.
+  intros [H1 H2 H3 H4 H5 H6 H7 H8 H9 H10] Hm Hn (rl & Hrl & Hlt).
+  assert (Hs : forall kr, In kr (slot_refs (Ids.set_nth j (slot_set w cr (Some rid)) (pt_slots x))) ->
+                 In kr (slot_refs (pt_slots x)) \/ kr = (k_id, rid)).
+  { intros kr Hkr. destruct (slot_refs_set_subset _ j cr w (Some rid) kr Hn Hkr) as [|(r & [= <-] & ->)]; auto. }
+  assert (Hall : forall kr, In kr (all_refs (with_slots x (Ids.set_nth j (slot_set w cr (Some rid)) (pt_slots x)))) ->
+                   In kr (all_refs x) \/ kr = (k_id, rid)).
+  { intros kr. unfold all_refs. cbn [pt_idl pt_refs pt_slots with_slots]. intros Hkr.
+    apply in_app_or in Hkr as [Hkr|Hkr]; [left; apply in_or_app; auto|].
+    apply in_app_or in Hkr as [Hkr|Hkr]; [left; apply in_or_app; right; apply in_or_app; auto|].
+    destruct (Hs kr Hkr) as [H|H]; auto. left. apply in_or_app; right; apply in_or_app; auto. }
+  constructor; cbn [pt_name pt_base pt_rels pt_ct]; auto.
+  - intros kr Hkr. destruct (Hall kr Hkr) as [H| ->]; [apply H6; auto|]. cbn [snd].
+    apply find_rel_In in Hrl as [Hi <-]. apply in_map. exact Hi.
+  - intros k r x' Hkr Hk Hf. destruct (Hall _ Hkr) as [H|[= E _]]; [eapply H7; eauto|contradiction].
+  - intros r Hr. unfold slot_rids in Hr. cbn [pt_slots with_slots] in Hr. apply in_map_iff in Hr as ([k0 r0] & Er & Hr).
+    cbn [snd] in Er. subst r0. destruct (Hs _ Hr) as [H|[= _ ->]].
+    + apply H8. unfold slot_rids. apply in_map_iff. exists (k0, r). auto.
+    + eauto.
+  - intros Hc. contradiction.
+Qed.
+
+(** what an edit of one part leaves alone *)
+Definition frame (p : nat) (s s1 : state) : Prop :=
+  st_pres s1 = st_pres s /\ st_slides s1 = st_slides s /\ length (st_parts s1) = length (st_parts s) /\
+  forall q, q <> p -> getp s1 q = getp s q.
+
+Lemma frame_refl p s : frame p s s.
+Proof. repeat split; auto. Qed.
+
+Lemma frame_trans p s s1 s2 : frame p s s1 -> frame p s1 s2 -> frame p s s2.
+Proof.
+  intros (A1 & A2 & A3 & A4) (B1 & B2 & B3 & B4). repeat split; try congruence.
+  intros q Hq. rewrite B4, A4; auto.
+Qed.
+
+Lemma frame_setp p s x x0 : getp s p = Some x0 -> frame p s (setp s p x).
+Proof. intros Hx. repeat split; auto. - apply length_setp. - intros q Hq. apply getp_setp_other. auto. Qed.
+
+Lemma frame_listed p s s1 sp : frame p s s1 -> p <> st_pres s -> listed s sp -> listed s1 sp.
+Proof.
+  intros (A1 & _ & _ & A4) Hn (pp & rid & Hpp & Hr). exists pp, rid. split; auto. rewrite A1, A4; auto.
+Qed.
+
+Lemma editable_setp s p x x' : editable s p x -> pt_ct x' = pt_ct x -> editable (setp s p x') p x'.
+Proof.
+  intros (Hx & Hn & Hc) Ec. split; [apply getp_setp_same; eapply getp_lt; eauto|]. split; auto. rewrite Ec. exact Hc.
+Qed.
+
+Definition edit_post (p : nat) (x : part) (s : state) : state -> Prop :=
+  fun s1 => frame p s s1 /\ exists x1, editable s1 p x1 /\ pt_ct x1 = pt_ct x /\ length (pt_slots x1) = length (pt_slots x).
+
+Lemma set_nth_len {A} (l : list A) n v : length (Ids.set_nth n v l) = length l.
+Proof. apply Ids_proofs.set_nth_length. Qed.
+
+Lemma MH_clear T s p x w j : tables_ok T -> Inv T s -> editable s p x ->
+  MH T (m_clear_slot p w j) s (fun _ s1 => edit_post p x s s1).
+Proof.
+  intros HT HI He. pose proof He as (Hx & Hnp & Hc). pose proof (editable_not_master s p x He) as Hm.
+  assert (Hself : edit_post p x s s) by (split; [apply frame_refl|exists x; auto]).
+  unfold m_clear_slot.
+  apply (MH_bind T _ _ s (fun y s1 => y = x /\ s1 = s)); [apply (MH_part T s p x); auto|].
+  intros y s1 _ [-> ->]. destruct (nth_error (pt_slots x) j) as [cr|] eqn:En; [|apply MH_fail; auto].
+  destruct (slot_get w cr) as [rid|] eqn:Eg; [|apply MH_ret; auto].
+  pose proof (iv_parts T s HI p x Hx) as G.
+  destruct (drop_rel x rid) as [x1|e] eqn:Ed.
+  2:{ apply (MH_bind T _ _ s (fun _ _ => False)); [apply MH_lift; auto; discriminate|intros ? ? _ []]. }
+  destruct (good_clear_slot _ x j cr w rid x1 G Hm En Eg Ed) as (G' & Hincl & Esl & Enm & Ect & Emf).
+  apply (MH_bind T _ _ s (fun y s1 => y = x1 /\ s1 = s)); [apply MH_lift; auto; intros a [= <-]; auto|].
+  intros y s1 _ [-> ->].
+  set (x' := with_slots x1 (Ids.set_nth j (slot_set w cr None) (pt_slots x1))).
+  apply MH_setp.
+  - apply (inv_setp T s p x x' []); auto; try (intros; contradiction).
+    intros q Hq. left. apply int_targets_In in Hq as (r & Hr & Et). apply int_targets_In. exists r. split; auto.
+  - split; [eapply frame_setp; eauto|]. exists x'. split; [apply (editable_setp s p x x'); auto|]. split; auto.
+    unfold x'. cbn [pt_slots with_slots]. rewrite set_nth_len, Esl. reflexivity.
+Qed.
+
+Lemma MH_fill T s p x w j rid : tables_ok T -> Inv T s -> editable s p x ->
+  (exists r, find_rel rid (pt_rels x) = Some r /\ In (rr_type r) link_types) ->
+  MH T (m_fill_slot p w j rid) s (fun _ s1 => edit_post p x s s1).
+Proof.
+  intros HT HI He Hr. pose proof He as (Hx & Hnp & Hc). pose proof (editable_not_master s p x He) as Hm.
+  unfold m_fill_slot.
+  apply (MH_bind T _ _ s (fun y s1 => y = x /\ s1 = s)); [apply (MH_part T s p x); auto|].
+  intros y s1 _ [-> ->]. destruct (nth_error (pt_slots x) j) as [cr|] eqn:En; [|apply MH_fail; auto].
+  pose proof (iv_parts T s HI p x Hx) as G.
+  apply MH_setp.
+  - apply (inv_setp T s p x _ []); auto; try (intros; contradiction). apply good_fill_slot; auto.
+  - split; [eapply frame_setp; eauto|]. eexists. split; [apply (editable_setp s p x); auto|]. split; auto.
+    cbn [pt_slots with_slots]. apply set_nth_len.
+Qed.
+
+Lemma MH_relate_ext T s src x t u : tables_ok T -> Inv T s -> getp s src = Some x -> src <> st_pres s ->
+  pt_ct x <> ct_slide_master -> t <> rt_slide_master ->
+  MH T (m_relate src t (TExt u)) s
+     (fun rid s1 => exists rs, s1 = setp s src (with_rels x rs) /\ rel_facts x rs rid t (TExt u)).
+Proof.
+  intros HT HI Hx Hnp Hnm Ht. destruct (relate_ext_inv T s src x t u HT HI Hx Hnp Hnm Ht) as (rs & rid & E & F & HI').
+  unfold MH. rewrite (m_relate_run s src t (TExt u) x rs rid Hx E). cbn. split; auto. intros a [= <-]. eauto.
+Qed.
+
+Lemma MH_relate_int T s src x t q N : tables_ok T -> Inv T s -> getp s src = Some x -> src <> st_pres s ->
+  pt_ct x <> ct_slide_master -> t <> rt_slide_master -> q < length (st_parts s) -> ~ In src N ->
+  (reachP s q \/ In q N \/ ~ reachP s src) ->
+  (forall n y q', In n N -> getp s n = Some y -> In q' (int_targets (pt_rels y)) -> reachP s q' \/ In q' N) ->
+  (forall n y, In n N -> ~ reachP s n -> getp s n = Some y ->
+     new_ok T s y /\ baseURI (pt_name y) <> s_slides_dir /\ pt_name y <> n_notes_master /\ pt_name y <> n_core) ->
+  (forall n m y z, In n N -> In m N -> n <> m -> ~ reachP s n -> ~ reachP s m ->
+     getp s n = Some y -> getp s m = Some z -> pt_name y <> pt_name z) ->
+  MH T (m_relate src t (TInt q)) s
+     (fun rid s1 => exists rs, s1 = setp s src (with_rels x rs) /\ rel_facts x rs rid t (TInt q)).
+Proof.
+  intros HT HI Hx Hnp Hnm Ht Hq HsN Hqr H1 H2 H3.
+  destruct (relate_inv T s src x t q N HT HI Hx Hnp Hnm Ht Hq HsN Hqr H1 H2 H3) as (rs & rid & E & F & HI').
+  unfold MH. rewrite (m_relate_run s src t (TInt q) x rs rid Hx E). cbn. split; auto. intros a [= <-]. eauto.
+Qed.
+
+(** after a relate on an editable part it is still editable, with the same slots *)
+Lemma editable_relate s p x rs : editable s p x -> editable (setp s p (with_rels x rs)) p (with_rels x rs).
+Proof. intros He. apply (editable_setp s p x); auto. Qed.
+
+Lemma link_type_hyperlink : In rt_hyperlink link_types. Proof. simpl; auto. Qed.
+Lemma link_type_slide : In rt_slide link_types. Proof. simpl; auto. Qed.
+Lemma rt_hyperlink_ne_master : rt_hyperlink <> rt_slide_master. Proof. vm_compute; discriminate. Qed.
+Lemma rt_slide_ne_master : rt_slide <> rt_slide_master. Proof. vm_compute; discriminate. Qed.
+
+Lemma MH_set_link T s p x w j url : tables_ok T -> Inv T s -> editable s p x ->
+  MH T (m_set_link p w j url) s (fun _ s1 => edit_post p x s s1).
+Proof.
+  intros HT HI He. unfold m_set_link.
+  apply (MH_bind T _ _ s _ _ (MH_clear T s p x w j HT HI He)).
+  intros [] s1 HI1 (Hf1 & x1 & He1 & Ec1 & El1). destruct url as [|c url'].
+  { apply MH_ret; auto. split; auto. exists x1. auto. }
+  pose proof He1 as (Hx1 & Hnp1 & Hc1).
+  apply (MH_bind T _ _ s1 _ _ (MH_relate_ext T s1 p x1 rt_hyperlink (c :: url') HT HI1 Hx1 Hnp1
+                                  (editable_not_master _ _ _ He1) rt_hyperlink_ne_master)).
+  intros rid s2 HI2 (rs & -> & F).
+  assert (He2 : editable (setp s1 p (with_rels x1 rs)) p (with_rels x1 rs)) by (apply editable_relate; auto).
+  eapply MH_weaken.
+  - apply (MH_fill T _ p (with_rels x1 rs) w j rid HT HI2 He2).
+    destruct F as (_ & (r & Hr & Ht & _) & _). exists r. split; auto. rewrite Ht. apply link_type_hyperlink.
+  - intros [] s3 (Hf3 & x3 & He3 & Ec3 & El3). split.
+    + eapply frame_trans; [exact Hf1|]. eapply frame_trans; [eapply frame_setp; eauto|exact Hf3].
+    + exists x3. split; auto. split; [rewrite Ec3; exact Ec1|]. rewrite El3. exact El1.
+Qed.
+
+Lemma MH_set_jump T s p x j tp : tables_ok T -> Inv T s -> editable s p x -> listed s tp ->
+  MH T (m_set_jump p j tp) s (fun _ s1 => edit_post p x s s1).
+Proof.
+  intros HT HI He Hl. unfold m_set_jump.
+  apply (MH_bind T _ _ s _ _ (MH_clear T s p x WClick j HT HI He)).
+  intros [] s1 HI1 (Hf1 & x1 & He1 & Ec1 & El1).
+  pose proof He1 as (Hx1 & Hnp1 & Hc1). pose proof He as (_ & Hnp & _).
+  assert (Hl1 : listed s1 tp) by (eapply frame_listed; eauto).
+  pose proof (listed_reach T s1 tp HI1 Hl1) as Hr1.
+  apply (MH_bind T _ _ s1 (fun rid s2 => exists rs, s2 = setp s1 p (with_rels x1 rs) /\ rel_facts x1 rs rid rt_slide (TInt tp))).
+  - apply (MH_relate_int T s1 p x1 rt_slide tp []); auto; try (intros; contradiction).
+    + apply (editable_not_master _ _ _ He1).
+    + apply rt_slide_ne_master.
+    + apply (reachP_lt s1 (inv_wfg T s1 HI1)). exact Hr1.
+  - intros rid s2 HI2 (rs & -> & F).
+    assert (He2 : editable (setp s1 p (with_rels x1 rs)) p (with_rels x1 rs)) by (apply editable_relate; auto).
+    eapply MH_weaken.
+    + apply (MH_fill T _ p (with_rels x1 rs) WClick j rid HT HI2 He2).
+      destruct F as (_ & (r & Hr & Ht & _) & _). exists r. split; auto. rewrite Ht. apply link_type_slide.
+    + intros [] s3 (Hf3 & x3 & He3 & Ec3 & El3). split.
+      * eapply frame_trans; [exact Hf1|]. eapply frame_trans; [eapply frame_setp; eauto|exact Hf3].
+      * exists x3. split; auto. split; [rewrite Ec3; exact Ec1|]. rewrite El3. exact El1.
+Qed.
+
+Lemma MH_has_slot T s p x j : Inv T s -> getp s p = Some x ->
+  MH T (m_has_slot p j) s (fun _ s1 => s1 = s).
+Proof.
+  intros HI Hx. unfold m_has_slot. apply (MH_bind T _ _ s (fun y s1 => s1 = s)); [apply (MH_part T s p x); auto|].
+  intros y s1 _ ->. apply MH_ret; auto.
+Qed.
+
+(** ** the link operations *)
+
+Lemma MH_true {A} T (m : M A) s Q : MH T m s Q -> Inv T (fst (m s)).
+Proof. intros [H _]. exact H. Qed.
+
+Lemma step_set_link T s w i j url : tables_ok T -> Inv T s -> Inv T (fst (step false T s (SetLink w i j url))).
+Proof.
+  intros HT HI. cbn [step]. rewrite fst_fin. eapply MH_true.
+  apply (MH_bind T _ _ s _ (fun _ _ => True) (MH_slide T s i HT HI)). intros sp s1 HI1 [Hs _].
+  destruct (slidep_editable s1 sp Hs) as (x & He & Ec & Hr). pose proof He as (Hx & _).
+  apply (MH_bind T _ _ s1 _ _ (MH_has_slot T s1 sp x j HI1 Hx)). intros h s2 _ ->.
+  destruct h; [|apply MH_ret; auto].
+  apply (MH_bind T _ _ s1 _ _ (MH_set_link T s1 sp x w j url HT HI1 He)). intros [] s3 HI3 _. apply MH_ret; auto.
+Qed.
+
+Lemma step_clear_link T s w i j : tables_ok T -> Inv T s -> Inv T (fst (step false T s (ClearLink w i j))).
+Proof.
+  intros HT HI. cbn [step]. rewrite fst_fin. eapply MH_true.
+  apply (MH_bind T _ _ s _ (fun _ _ => True) (MH_slide T s i HT HI)). intros sp s1 HI1 [Hs _].
+  destruct (slidep_editable s1 sp Hs) as (x & He & Ec & Hr). pose proof He as (Hx & _).
+  apply (MH_bind T _ _ s1 _ _ (MH_has_slot T s1 sp x j HI1 Hx)). intros h s2 _ ->.
+  destruct h; [|apply MH_ret; auto].
+  apply (MH_bind T _ _ s1 _ _ (MH_clear T s1 sp x w j HT HI1 He)). intros [] s3 HI3 _. apply MH_ret; auto.
+Qed.
+
+Lemma step_clear_jump T s i j : tables_ok T -> Inv T s -> Inv T (fst (step false T s (ClearJump i j))).
+Proof.
+  intros HT HI. cbn [step]. rewrite fst_fin. eapply MH_true.
+  apply (MH_bind T _ _ s _ (fun _ _ => True) (MH_slide T s i HT HI)). intros sp s1 HI1 [Hs _].
+  destruct (slidep_editable s1 sp Hs) as (x & He & Ec & Hr). pose proof He as (Hx & _).
+  apply (MH_bind T _ _ s1 _ _ (MH_has_slot T s1 sp x j HI1 Hx)). intros h s2 _ ->.
+  destruct h; [|apply MH_ret; auto].
+  apply (MH_bind T _ _ s1 _ _ (MH_clear T s1 sp x WClick j HT HI1 He)). intros [] s3 HI3 _. apply MH_ret; auto.
+Qed.
+
+Lemma slide_pure s k : st_slides s = true -> fst (m_slide k s) = s.
+Proof.
+  intros Hs. unfold m_slide, bindM, m_access_slides. rewrite Hs. unfold getS, m_part, bindM, getS, ret, fail, lift, m_class, m_part, bindM, getS.
+  destruct (getp s (st_pres s)) as [pp|]; cbn; auto.
+  destruct (nth_error (pt_idl pp) k) as [rid|]; cbn; auto.
+  destruct (related_part rid (pt_rels pp)) as [sp|]; cbn; auto.
+  unfold ret, fail. destruct (getp s sp) as [x|]; cbn; auto.
+  destruct (str_eqb (pt_ct x) ct_slide); cbn; auto.
+Qed.
+
+Lemma MH_slide_again T s k : tables_ok T -> Inv T s -> st_slides s = true ->
+  MH T (m_slide k) s (fun tp s1 => s1 = s /\ slidep s tp).
+Proof.
+  intros HT HI Hs. destruct (MH_slide T s k HT HI) as [H1 H2]. pose proof (slide_pure s k Hs) as E.
+  split; [rewrite E; auto|]. intros a Ha. specialize (H2 a Ha). rewrite E in *. tauto.
+Qed.
+
+Lemma step_set_jump T s i j k : tables_ok T -> Inv T s -> Inv T (fst (step false T s (SetJump i j k))).
+Proof.
+  intros HT HI. cbn [step]. rewrite fst_fin. eapply MH_true.
+  apply (MH_bind T _ _ s _ (fun _ _ => True) (MH_slide T s i HT HI)). intros sp s1 HI1 [Hs _].
+  destruct (slidep_editable s1 sp Hs) as (x & He & Ec & Hr). pose proof He as (Hx & _).
+  apply (MH_bind T _ _ s1 _ _ (MH_has_slot T s1 sp x j HI1 Hx)). intros h s2 _ ->.
+  destruct h; [|apply MH_ret; auto].
+  apply (MH_bind T _ _ s1 _ _ (MH_slide_again T s1 k HT HI1 (proj1 Hs))). intros tp s2 _ [-> Htp].
+  apply (MH_bind T _ _ s1 _ _ (MH_set_jump T s1 sp x j tp HT HI1 He (proj2 (proj2 (proj2 (proj2 Htp)))))).
+  intros [] s3 HI3 _. apply MH_ret; auto.
+Qed.
+
+(** a read access changes nothing (target_ref is an ordinary property) *)
+Lemma read_link_pure p w j s : fst (m_read_link false p w j s) = s.
+Proof.
+  unfold m_read_link, bindM, m_part, bindM, getS, ret, fail.
+  destruct (getp s p) as [x|]; cbn; auto.
+  destruct (nth_error (pt_slots x) j) as [cr|]; cbn; auto.
+  destruct (slot_get w cr) as [rid|]; cbn; auto.
+  unfold m_target_ref, bindM, m_part, bindM, getS, ret, fail. destruct (getp s p) as [x'|]; cbn; auto.
+  destruct (find_rel rid (pt_rels x')) as [r|]; cbn; auto.
+  destruct (rr_tgt r), (rr_ref r); cbn; auto.
+Qed.
+
+Lemma step_read_link T s w i j : tables_ok T -> Inv T s -> Inv T (fst (step false T s (ReadLink w i j))).
+Proof.
+  intros HT HI. cbn [step]. rewrite fst_fin. unfold bindM.
+  destruct (MH_slide T s i HT HI) as [H1 _]. destruct (m_slide i s) as [s1 [sp|e]]; cbn in *; auto.
+  rewrite read_link_pure. exact H1.
+Qed.
+
+(* ------------------------------------------------------------------------------ *)
+(** * Creating a part and relating to it *)
+
+Definition addp (s : state) (y : part) : state := with_parts s (st_parts s ++ [y]).
+
+Lemma m_new_run s y : m_new y s = (addp s y, Ok (length (st_parts s))).
+Proof. reflexivity. Qed.
+
+Lemma MH_new T s y (Q : nat -> state -> Prop) : tables_ok T -> Inv T s ->
+  good_part (S (length (st_parts s))) y -> pt_idl y = [] ->
+  Q (length (st_parts s)) (addp s y) -> MH T (m_new y) s Q.
+Proof.
+  intros HT HI G Hi HQ. unfold MH. rewrite m_new_run. cbn. split; [apply inv_append; auto|].
+  intros a [= <-]. exact HQ.
+Qed.
+
+Lemma addp_names_in T s y nm : tables_ok T -> Inv T s -> good_part (S (length (st_parts s))) y -> pt_idl y = [] ->
+  In nm (iter_names (addp s y)) -> In nm (iter_names s).
+Proof.
+  intros HT HI G Hi H. pose proof (inv_append T s y HT HI G Hi) as HI'.
+  apply (in_iter_names _ (inv_wfg T _ HI')) in H as (p & x & Hpx & En).
+  apply (reach_part_iff _ (inv_wfg T _ HI')) in Hpx as [Hr Hx].
+  apply (ap_reach_iff T s y HI) in Hr. apply (in_iter_names s (inv_wfg T s HI)).
+  exists p, x. split; auto. apply (reach_part_iff s (inv_wfg T s HI)). split; auto.
+  pose proof (reachP_lt s (inv_wfg T s HI) p Hr) as Hlt.
+  unfold addp in Hx. rewrite getp_app_old in Hx; auto.
+Qed.
+
+Lemma addp_not_reach T s y : Inv T s -> ~ reachP (addp s y) (length (st_parts s)).
+Proof.
+  intros HI Hr. apply (ap_reach_iff T s y HI) in Hr. pose proof (reachP_lt s (inv_wfg T s HI) _ Hr). lia.
+Qed.
+
+(** a new part fit to be reached: a fresh part name outside the special directories, a content
+    type the default table does not list for bin *)
+Record leaf_ok (T : tables) (s : state) (y : part) : Prop := mkLeaf {
+  lf_good : good_part (S (length (st_parts s))) y;
+  lf_idl : pt_idl y = [];
+  lf_fresh : ~ In (pt_name y) (iter_names s);
+  lf_bin : Opc.in_table (t_def T) s_bin (pt_ct y) = false;
+  lf_dir : baseURI (pt_name y) <> s_slides_dir;
+  lf_nm : pt_name y <> n_notes_master;
+  lf_core : pt_name y <> n_core
+}.
+
+(** relating a part [src] of the state just extended by the unreached leaf [y] to that leaf *)
+Lemma MH_relate_leaf T s y src x t : tables_ok T -> Inv T s -> leaf_ok T s y -> pt_rels y = [] ->
+  getp s src = Some x -> src <> st_pres s -> pt_ct x <> ct_slide_master -> t <> rt_slide_master ->
+  MH T (m_relate src t (TInt (length (st_parts s)))) (addp s y)
+     (fun rid s1 => exists rs, s1 = setp (addp s y) src (with_rels x rs) /\ rel_facts x rs rid t (TInt (length (st_parts s)))).
+Proof.
+  intros HT HI [G Hi Hf Hb Hd Hn Hc] Hr Hx Hnp Hnm Ht.
+  pose proof (inv_append T s y HT HI G Hi) as HI'.
+  assert (Hx' : getp (addp s y) src = Some x) by (unfold addp; rewrite getp_app_old; auto; eapply getp_lt; eauto).
+  assert (Hy : getp (addp s y) (length (st_parts s)) = Some y) by apply getp_app_new.
+  apply (MH_relate_int T (addp s y) src x t (length (st_parts s)) [length (st_parts s)]); auto.
+  - unfold addp. cbn. rewrite app_length. simpl. lia.
+  - intros [E|[]]. pose proof (getp_lt s src x Hx). lia.
+  - right. left. simpl. auto.
+  - intros n z q' [<-|[]] Hz Hq'. rewrite Hy in Hz. injection Hz as <-. rewrite Hr in Hq'. destruct Hq'.
+  - intros n z [<-|[]] _ Hz. rewrite Hy in Hz. injection Hz as <-. split; [|auto].
+    constructor; auto. intros Hin. apply Hf. eapply addp_names_in; eauto.
+  - intros n m z z' [<-|[]] [<-|[]] Hne. contradiction.
+Qed.
+
+Lemma good_new_part n name ct sha : Opc.part_name name -> good_part n (new_part name ct sha).
+Proof.
+  intros H. constructor; cbn; auto; try (intros; contradiction).
+  - constructor.
+  - intros _. split; [constructor|]. split; [intros kr []|intros r x' []].
+Qed.
+
+Lemma typed_targets_int ts rs p : In p (typed_targets ts rs) -> In p (int_targets rs).
+Proof.
+  unfold typed_targets. intros H. apply in_flat_map in H as (r & Hr & Hp). apply int_targets_In. exists r. split; auto.
+  destruct (mem_str (rr_type r) ts); [|destruct Hp]. destruct (rr_tgt r); simpl in Hp; [destruct Hp as [->|[]]; auto|destruct Hp].
+Qed.
+
+Lemma rel_targets_reach s ts p : wfg s -> In p (rel_targets s ts) -> reachP s p.
+Proof.
+  intros Hw H. unfold rel_targets in H. apply in_app_or in H as [H|H].
+  - constructor. eapply typed_targets_int; eauto.
+  - apply in_flat_map in H as (a & Ha & Hp). destruct (getp s a) as [x|] eqn:Hx; [|destruct Hp].
+    eapply rp1; [apply (iter_pids_spec s Hw); exact Ha|exact Hx|eapply typed_targets_int; eauto].
+Qed.
+
+Lemma find_image_In s sha cands p : find_image s sha cands = Some p -> In p cands.
+Proof.
+  induction cands as [|a l IH]; simpl; [discriminate|]. destruct (getp s a) as [x|].
+  - destruct (negb (N.eqb (pt_sha x) 0) && N.eqb (pt_sha x) sha); [intros [= <-]; auto|auto].
+  - auto.
+Qed.
+
+Lemma find_media_In s sha cands p : find_media s sha cands = Ok (Some p) -> In p cands.
+Proof.
+  induction cands as [|a l IH]; simpl; [discriminate|]. destruct (getp s a) as [x|].
+  - destruct (N.eqb (pt_sha x) 0); [discriminate|]. destruct (N.eqb (pt_sha x) sha); [intros [= <-]; auto|auto].
+  - auto.
+Qed.
+
+Lemma media_leaf T s stem i b :
+  tables_ok T -> Inv T s -> blob_ok T b -> stem_ok stem = true -> (0 < i)%Z ->
+  let name := (c_slash :: asc "ppt/media/") ++ stem ++ Wire.show_Z i ++ [c_dot] ++ b_ext b in
+  ~ In name (iter_names s) -> leaf_ok T s (new_part name (b_ct b) (b_sha b)).
+Proof.
+  intros HT HI (He & Hb & _) Hs Hi name Hf.
+  destruct (media_dir_name stem i (b_ext b) Hs Hi He) as (_ & Hpn & Hbase). fold name in Hpn, Hbase.
+  constructor; cbn [pt_name pt_ct pt_idl new_part]; auto.
+  - apply good_new_part. exact Hpn.
+  - rewrite Hbase. vm_compute. discriminate.
+  - intros E. rewrite E in Hbase. vm_compute in Hbase. discriminate.
+  - intros E. rewrite E in Hbase. vm_compute in Hbase. discriminate.
+Qed.
+
+(** Package.get_or_add_image_part: an image part that is reached already, or a new leaf *)
+Lemma MH_image T s b : tables_ok T -> Inv T s -> blob_ok T b ->
+  MH T (m_image b) s (fun ip s1 =>
+    (s1 = s /\ reachP s ip) \/
+    (exists y, s1 = addp s y /\ ip = length (st_parts s) /\ leaf_ok T s y /\ pt_rels y = [])).
+Proof.
+  intros HT HI Hb. pose proof (inv_wfg T s HI) as Hw. unfold m_image.
+  apply (MH_bind T _ _ s (fun a s1 => a = s /\ s1 = s)); [apply MH_getS; auto|]. intros a s1 _ [-> ->].
+  destruct (find_image s (b_sha b) (rel_targets s [rt_image])) as [p|] eqn:Ef.
+  - apply MH_ret; auto. left. split; auto. eapply rel_targets_reach; eauto. eapply find_image_In; eauto.
+  - destruct Hb as (He & Hbin & Hcls). destruct (ext_ok_spec _ He) as [Hnd Hns].
+    destruct (Ids_proofs.image_idx_fresh (iter_names s)) as [Hpos _].
+    pose proof (Ids_proofs.image_name_fresh (b_ext b) (iter_names s)) as Hfresh.
+    unfold Ids.next_image_partname in *.
+    change Ids.s_img_prefix with ((c_slash :: asc "ppt/media/") ++ asc "image") in *.
+    rewrite <- app_assoc in *.
+    destruct (media_dir_name (asc "image") (Ids.next_image_idx (iter_names s)) (b_ext b) eq_refl ltac:(lia) He) as (Hok & _).
+    cbv zeta in Hok. rewrite Hok in *. 
+    apply (MH_bind T _ _ s (fun nm s1 => s1 = s /\ nm = (c_slash :: asc "ppt/media/") ++ asc "image" ++ Wire.show_Z (Ids.next_image_idx (iter_names s)) ++ [c_dot] ++ b_ext b)).
+    + apply MH_lift; auto. intros nm [= <-]. auto.
+    + intros nm s1 _ [-> ->].
+      assert (Hl : leaf_ok T s (new_part ((c_slash :: asc "ppt/media/") ++ asc "image" ++ Wire.show_Z (Ids.next_image_idx (iter_names s)) ++ [c_dot] ++ b_ext b) (b_ct b) (b_sha b))).
+      { assert (Hbo : blob_ok T b) by (repeat split; auto).
+        assert (Hlt : (0 < Ids.next_image_idx (iter_names s))%Z) by lia.
+        apply (media_leaf T s (asc "image") _ b HT HI Hbo eq_refl Hlt).
+        apply (Hfresh _ Hnd Hns). reflexivity. }
+      apply MH_new; auto; [apply (lf_good _ _ _ Hl)|].
+      right. eexists. split; [reflexivity|]. split; auto.
+Qed.
+
+(** what an operation that may add parts leaves alone *)
+Definition gframe (src : nat) (s s1 : state) : Prop :=
+  st_pres s1 = st_pres s /\ st_slides s1 = st_slides s /\ length (st_parts s) <= length (st_parts s1) /\
+  forall q, q <> src -> q < length (st_parts s) -> getp s1 q = getp s q.
+
+Lemma gframe_refl src s : gframe src s s.
+Proof. repeat split; auto. Qed.
+
+Lemma gframe_trans src s s1 s2 : gframe src s s1 -> gframe src s1 s2 -> gframe src s s2.
+Proof.
+  intros (A1 & A2 & A3 & A4) (B1 & B2 & B3 & B4). repeat split; try congruence; try lia.
+  intros q Hq Hl. rewrite B4, A4; auto. lia.
+Qed.
+
+Lemma gframe_setp src s x : gframe src s (setp s src x).
+Proof. repeat split; auto. - rewrite length_setp. lia. - intros q Hq _. apply getp_setp_other. auto. Qed.
+
+Lemma gframe_addp src s y : gframe src s (addp s y).
+Proof.
+  repeat split; auto.
+  - unfold addp. cbn. rewrite app_length. lia.
+  - intros q _ Hl. unfold addp. apply getp_app_old. exact Hl.
+Qed.
+
+Lemma gframe_listed src s s1 sp : gframe src s s1 -> src <> st_pres s -> (exists pp, getp s (st_pres s) = Some pp) ->
+  listed s sp -> listed s1 sp.
+Proof.
+  intros (A1 & _ & _ & A4) Hn _ (pp & rid & Hpp & Hr). exists pp, rid. split; auto. rewrite A1, A4; auto.
+  eapply getp_lt; eauto.
+Qed.
+
+Definition rel_post (src : nat) (x : part) (t : str) (s : state) (rid : str) (s1 : state) : Prop :=
+  gframe src s s1 /\ exists rs ip, getp s1 src = Some (with_rels x rs) /\ rel_facts x rs rid t (TInt ip).
+
+Lemma rt_image_ne_master : rt_image <> rt_slide_master. Proof. vm_compute; discriminate. Qed.
+
+Lemma MH_part_image T s src x b : tables_ok T -> Inv T s -> blob_ok T b ->
+  getp s src = Some x -> src <> st_pres s -> pt_ct x <> ct_slide_master ->
+  MH T (m_part_image src b) s (rel_post src x rt_image s).
+Proof.
+  intros HT HI Hb Hx Hnp Hnm. unfold m_part_image. pose proof (getp_lt s src x Hx) as Hlt.
+  apply (MH_bind T _ _ s _ _ (MH_image T s b HT HI Hb)).
+  intros ip s1 HI1 [[-> Hr]|(y & -> & -> & Hl & Hrel)].
+  - eapply MH_weaken.
+    + apply (MH_relate_int T s src x rt_image ip []); auto; try (intros; contradiction).
+      * apply rt_image_ne_master.
+      * apply (reachP_lt s (inv_wfg T s HI)). exact Hr.
+    + intros rid s2 (rs & -> & F). split; [apply gframe_setp|]. exists rs, ip. split; auto. apply getp_setp_same. exact Hlt.
+  - eapply MH_weaken.
+    + apply (MH_relate_leaf T s y src x rt_image); auto. apply rt_image_ne_master.
+    + intros rid s2 (rs & -> & F). split; [eapply gframe_trans; [apply gframe_addp|apply gframe_setp]|].
+      exists rs, (length (st_parts s)). split; auto. apply getp_setp_same.
+      unfold addp. cbn. rewrite app_length. lia.
+Qed.
+
+(** appending references to relationships of a kind that is not a link type *)
+Lemma MH_add_refs T s p x krs : tables_ok T -> Inv T s -> getp s p = Some x -> p <> st_pres s ->
+  pt_ct x <> ct_slide_master ->
+  (forall k r, In (k, r) krs -> exists r', find_rel r (pt_rels x) = Some r' /\ (k <> k_id -> ~ In (rr_type r') link_types)) ->
+  Inv T (setp s p (with_refs x (pt_refs x ++ krs))).
+Proof.
+  intros HT HI Hx Hnp Hnm Hk. apply (inv_setp T s p x _ []); auto; try (intros; contradiction).
+  apply good_add_refs; auto. apply (iv_parts T s HI p x Hx).
+Qed.
+
+Lemma not_link_image : ~ In rt_image link_types.
+Proof. intros H. vm_compute in H. destruct H as [H|[H|[]]]; discriminate. Qed.
+
+Lemma step_add_picture T s i b : tables_ok T -> blob_ok T b -> Inv T s -> Inv T (fst (step false T s (AddPicture i b))).
+Proof.
+  intros HT Hb HI. cbn [step]. rewrite fst_fin. eapply MH_true. unfold m_add_picture.
+  apply (MH_bind T _ _ s _ (fun _ _ => True) (MH_slide T s i HT HI)). intros sp s1 HI1 [Hs _].
+  destruct (slidep_editable s1 sp Hs) as (x & He & Ec & Hr). pose proof He as (Hx & Hnp & _).
+  pose proof (editable_not_master _ _ _ He) as Hnm.
+  apply (MH_bind T _ _ s1 _ _ (MH_part_image T s1 sp x b HT HI1 Hb Hx Hnp Hnm)).
+  intros rid s2 HI2 (Hg & rs & ip & Hx2 & F). unfold m_add_ref.
+  apply (MH_bind T _ _ s2 (fun y s3 => y = with_rels x rs /\ s3 = s2)); [apply (MH_part T s2 sp (with_rels x rs)); auto|].
+  intros y s3 _ [-> ->]. apply MH_setp; auto.
+  apply (MH_add_refs T s2 sp (with_rels x rs) [(k_embed, rid)]); auto.
+  - destruct Hg as (E & _). rewrite E. exact Hnp.
+  - intros k r [[= <- <-]|[]]. destruct F as (_ & (r' & Hr' & Ht & _) & _). exists r'. split; auto.
+    intros _. rewrite Ht. apply not_link_image.
+Qed.
+
+Lemma good_with_phs n x k : good_part n x -> good_part n (with_phs x k).
+Proof. intros [H1 H2 H3 H4 H5 H6 H7 H8 H9 H10]. constructor; auto. Qed.
+
+Lemma step_insert_picture T s i b : tables_ok T -> blob_ok T b -> Inv T s -> Inv T (fst (step false T s (InsertPicture i b))).
+Proof.
+  intros HT Hb HI. cbn [step]. rewrite fst_fin. eapply MH_true.
+  apply (MH_bind T _ _ s _ (fun _ _ => True) (MH_slide T s i HT HI)). intros sp s1 HI1 [Hs _].
+  destruct (slidep_editable s1 sp Hs) as (x & He & Ec & Hr). pose proof He as (Hx & Hnp & _).
+  pose proof (editable_not_master _ _ _ He) as Hnm.
+  apply (MH_bind T _ _ s1 (fun y s3 => y = x /\ s3 = s1)); [apply (MH_part T s1 sp x); auto|].
+  intros y s3 _ [-> ->]. destruct (pt_phs x) as [|n]; [apply MH_ret; auto|].
+  apply (MH_bind T _ _ s1 _ _ (MH_part_image T s1 sp x b HT HI1 Hb Hx Hnp Hnm)).
+  intros rid s2 HI2 (Hg & rs & ip & Hx2 & F).
+  apply (MH_bind T _ _ s2 (fun y s3 => y = with_rels x rs /\ s3 = s2)); [apply (MH_part T s2 sp (with_rels x rs)); auto|].
+  intros y s3 _ [-> ->].
+  assert (Hnp2 : sp <> st_pres s2) by (destruct Hg as (E & _); rewrite E; exact Hnp).
+  apply (MH_bind T _ _ s2 (fun _ _ => True)); [|intros; apply MH_ret; auto].
+  apply MH_setp; auto.
+  apply (inv_setp T s2 sp (with_rels x rs) _ []); auto; try (intros; contradiction).
+  apply good_with_phs. apply good_add_refs; auto; [apply (iv_parts T s2 HI2 sp _ Hx2)|].
+  intros k r [[= <- <-]|[]]. destruct F as (_ & (r' & Hr' & Ht & _) & _). exists r'. split; auto.
+  intros _. rewrite Ht. apply not_link_image.
+Qed.
+
+(* ------------------------------------------------------------------------------ *)
+(** * Parts named from a template *)
+
+Lemma other_dirs_plain d : In d other_dirs ->
+  d <> s_slides_dir /\ d <> baseURI n_notes_master /\ d <> baseURI n_core.
+Proof.
+  intros H. simpl in H. repeat (destruct H as [<-|H]; [repeat split; vm_compute; discriminate|]). destruct H.
+Qed.
+
+Lemma tmpl_leaf T s tp k ct sha : tables_ok T -> Inv T s -> In tp known_tps -> In ct new_part_cts ->
+  ~ In (Ids.tmpl_apply (fst tp) (snd tp) k) (iter_names s) ->
+  leaf_ok T s (new_part (Ids.tmpl_apply (fst tp) (snd tp) k) ct sha).
+Proof.
+  intros HT HI Htp Hct Hf. destruct (tp_name_facts tp k Htp) as [Hpn Hd].
+  destruct (other_dirs_plain _ Hd) as (D1 & D2 & D3).
+  constructor; cbn [pt_name pt_ct pt_idl new_part]; auto.
+  - apply good_new_part. exact Hpn.
+  - apply (tk_bin T HT). exact Hct.
+  - intros E. apply D2. rewrite E. reflexivity.
+  - intros E. apply D3. rewrite E. reflexivity.
+Qed.
+
+Lemma MH_next_partname T s tp : Inv T s -> In tp known_tps ->
+  MH T (m_next_partname tp) s (fun nm s1 => s1 = s /\ ~ In nm (iter_names s) /\
+                                             exists k, nm = Ids.tmpl_apply (fst tp) (snd tp) k).
+Proof.
+  intros HI Htp. unfold m_next_partname.
+  apply (MH_bind T _ _ s (fun a s1 => a = s /\ s1 = s)); [apply MH_getS; auto|]. intros a s1 _ [-> ->].
+  apply MH_lift; auto. intros nm E. pose proof (Ids_proofs.partname_fresh (fst tp) (snd tp) (iter_names s)) as H.
+  rewrite E in H. destruct H as (Hf & k & _ & Hk). split; auto. split; auto. eauto.
+Qed.
+
+Lemma rel_facts_keep x rs rid t g k r : rel_facts x rs rid t g -> find_rel k (pt_rels x) = Some r -> find_rel k rs = Some r.
+Proof.
+  intros (_ & _ & H) Hf. rewrite H; auto. apply find_rel_In in Hf as [Hin <-]. apply in_map. exact Hin.
+Qed.
+
+Lemma ole_spec_facts k : let '(tp, ct, rt) := ole_spec k in
+  In tp known_tps /\ In ct new_part_cts /\ rt <> rt_slide_master /\ ~ In rt link_types.
+Proof.
+  destruct k; cbn; (split; [simpl; tauto|split; [simpl; tauto|split; [vm_compute; discriminate|]]]);
+    intros H; vm_compute in H; destruct H as [H|[H|[]]]; discriminate.
+Qed.
+
+Lemma icon_blob_ok T k : tables_ok T -> blob_ok T (icon_blob k).
+Proof.
+  intros HT. destruct k; (split; [reflexivity|split; [apply (tk_bin T HT); simpl; tauto|]]);
+    intros H; vm_compute in H; repeat (destruct H as [H|H]; [discriminate|]); exact H.
+Qed.
+
+Lemma speaker_blob_ok T : tables_ok T -> blob_ok T speaker_blob.
+Proof.
+  intros HT. split; [reflexivity|split; [apply (tk_bin T HT); simpl; tauto|]].
+  intros H; vm_compute in H; repeat (destruct H as [H|H]; [discriminate|]); exact H.
+Qed.
+
+Lemma step_add_ole T s i k : tables_ok T -> Inv T s -> Inv T (fst (step false T s (AddOle i k))).
+Proof.
+  intros HT HI. cbn [step]. rewrite fst_fin. eapply MH_true. unfold m_add_ole.
+  apply (MH_bind T _ _ s _ (fun _ _ => True) (MH_slide T s i HT HI)). intros sp s1 HI1 [Hs _].
+  destruct (slidep_editable s1 sp Hs) as (x & He & Ec & Hr). pose proof He as (Hx & Hnp & _).
+  pose proof (editable_not_master _ _ _ He) as Hnm.
+  pose proof (ole_spec_facts k) as Hk. destruct (ole_spec k) as [[tp ct] rt]. destruct Hk as (Htp & Hct & Hrt & Hnl).
+  apply (MH_bind T _ _ s1 _ _ (MH_next_partname T s1 tp HI1 Htp)). intros nm s2 _ (-> & Hf & kk & ->).
+  pose proof (tmpl_leaf T s1 tp kk ct 0 HT HI1 Htp Hct Hf) as Hl.
+  apply (MH_bind T _ _ s1 (fun ep s2 => ep = length (st_parts s1) /\ s2 = addp s1 (new_part (Ids.tmpl_apply (fst tp) (snd tp) kk) ct 0))).
+  { apply MH_new; [exact HT|exact HI1|apply (lf_good _ _ _ Hl)|reflexivity|split; reflexivity]. }
+  intros ep s2 HI2 [-> ->].
+  apply (MH_bind T _ _ _ _ _ (MH_relate_leaf T s1 _ sp x rt HT HI1 Hl eq_refl Hx Hnp Hnm Hrt)).
+  intros ole_rid s3 HI3 (rs & -> & F).
+  set (s2 := addp s1 (new_part (Ids.tmpl_apply (fst tp) (snd tp) kk) ct 0)) in *.
+  assert (Hlt : sp < length (st_parts s2)).
+  { unfold s2, addp. cbn. rewrite app_length. pose proof (getp_lt s1 sp x Hx). lia. }
+  assert (Hx3 : getp (setp s2 sp (with_rels x rs)) sp = Some (with_rels x rs)) by (apply getp_setp_same; auto).
+  apply (MH_bind T _ _ _ _ _ (MH_part_image T _ sp (with_rels x rs) (icon_blob k) HT HI3 (icon_blob_ok T k HT) Hx3 Hnp Hnm)).
+  intros icon_rid s4 HI4 (Hg & rs2 & ip & Hx4 & F2).
+  apply (MH_bind T _ _ s4 (fun y s5 => y = with_rels (with_rels x rs) rs2 /\ s5 = s4)); [apply (MH_part T s4 sp _ _ HI4 Hx4); auto|].
+  intros y s5 _ [-> ->]. apply MH_setp; auto.
+  apply (MH_add_refs T s4 sp _ [(k_id, ole_rid); (k_embed, icon_rid)]); auto.
+  - destruct Hg as (E & _). rewrite E. exact Hnp.
+  - intros k0 r [[= <- <-]|[[= <- <-]|[]]].
+    + destruct F as (_ & (r' & Hr' & Ht & _) & _). exists r'. split.
+      * apply (rel_facts_keep _ _ _ _ _ _ _ F2). exact Hr'.
+      * intros _. rewrite Ht. exact Hnl.
+    + destruct F2 as (_ & (r' & Hr' & Ht & _) & _). exists r'. split; auto. intros _. rewrite Ht. apply not_link_image.
+Qed.
+
+(* ------------------------------------------------------------------------------ *)
+(** * Movies *)
+
+Definition got (T : tables) (s : state) (ip : nat) (s1 : state) : Prop :=
+  (s1 = s /\ reachP s ip) \/
+  (exists y, s1 = addp s y /\ ip = length (st_parts s) /\ leaf_ok T s y /\ pt_rels y = []).
+
+Lemma MH_relate_got T s s' src x t ip : tables_ok T -> Inv T s -> got T s ip s' ->
+  getp s src = Some x -> src <> st_pres s -> pt_ct x <> ct_slide_master -> t <> rt_slide_master ->
+  MH T (m_relate src t (TInt ip)) s'
+     (fun rid s2 => gframe src s s2 /\ exists rs, getp s2 src = Some (with_rels x rs) /\ rel_facts x rs rid t (TInt ip)).
+Proof.
+  intros HT HI Hg Hx Hnp Hnm Ht. pose proof (getp_lt s src x Hx) as Hlt.
+  destruct Hg as [[-> Hr]|(y & -> & -> & Hl & Hrel)].
+  - eapply MH_weaken.
+    + apply (MH_relate_int T s src x t ip []); auto; try (intros; contradiction).
+      apply (reachP_lt s (inv_wfg T s HI)). exact Hr.
+    + intros rid s2 (rs & -> & F). split; [apply gframe_setp|]. exists rs. split; auto. apply getp_setp_same. exact Hlt.
+  - eapply MH_weaken.
+    + apply (MH_relate_leaf T s y src x t); auto.
+    + intros rid s2 (rs & -> & F). split; [eapply gframe_trans; [apply gframe_addp|apply gframe_setp]|].
+      exists rs. split; auto. apply getp_setp_same. unfold addp. cbn. rewrite app_length. lia.
+Qed.
+
+Lemma MH_media T s v : tables_ok T -> Inv T s -> blob_ok T v ->
+  MH T (m_media v) s (fun mp s1 => got T s mp s1).
+Proof.
+  intros HT HI Hb. pose proof (inv_wfg T s HI) as Hw. unfold m_media.
+  apply (MH_bind T _ _ s (fun a s1 => a = s /\ s1 = s)); [apply MH_getS; auto|]. intros a s1 _ [-> ->].
+  destruct (find_media s (b_sha v) (rel_targets s [rt_media; rt_video])) as [[p|]|e] eqn:Ef.
+  - apply (MH_bind T _ _ s (fun o s1 => o = Some p /\ s1 = s)); [apply MH_lift; auto; intros o [= <-]; auto|].
+    intros o s1 _ [-> ->]. apply MH_ret; auto. left. split; auto.
+    eapply rel_targets_reach; eauto. eapply find_media_In; eauto.
+  - apply (MH_bind T _ _ s (fun o s1 => o = None /\ s1 = s)); [apply MH_lift; auto; intros o [= <-]; auto|].
+    intros o s1 _ [-> ->]. destruct Hb as (He & Hbin & Hcls). destruct (ext_ok_spec _ He) as [Hnd Hns].
+    pose proof (Ids_proofs.media_idx_spec (iter_names s)) as Hidx.
+    pose proof (Ids_proofs.media_name_fresh (b_ext v) (iter_names s)) as Hfresh.
+    unfold Ids.next_media_partname in *.
+    destruct (Ids.next_media_idx (iter_names s)) as [idx|e] eqn:Ei; cbn [bind] in *.
+    2:{ apply (MH_bind T _ _ s (fun _ _ => False)); [apply MH_lift; auto; discriminate|intros ? ? _ []]. }
+    destruct Hidx as [Hpos _].
+    change Ids.s_med_prefix with ((c_slash :: asc "ppt/media/") ++ asc "media") in *.
+    rewrite <- app_assoc in *.
+    destruct (media_dir_name (asc "media") idx (b_ext v) eq_refl ltac:(lia) He) as (Hok & _).
+    cbv zeta in Hok. rewrite Hok in *.
+    apply (MH_bind T _ _ s (fun nm s1 => s1 = s /\ nm = (c_slash :: asc "ppt/media/") ++ asc "media" ++ Wire.show_Z idx ++ [c_dot] ++ b_ext v)).
+    + apply MH_lift; auto. intros nm [= <-]. auto.
+    + intros nm s1 _ [-> ->].
+      assert (Hl : leaf_ok T s (new_part ((c_slash :: asc "ppt/media/") ++ asc "media" ++ Wire.show_Z idx ++ [c_dot] ++ b_ext v) (b_ct v) (b_sha v))).
+      { assert (Hbo : blob_ok T v) by (repeat split; auto).
+        assert (Hlt : (0 < idx)%Z) by lia.
+        apply (media_leaf T s (asc "media") _ v HT HI Hbo eq_refl Hlt).
+        apply (Hfresh _ Hnd Hns). reflexivity. }
+      apply MH_new; [exact HT|exact HI|apply (lf_good _ _ _ Hl)|reflexivity|].
+      right. eexists. split; [reflexivity|]. split; auto.
+  - apply (MH_bind T _ _ s (fun _ _ => False)); [apply MH_lift; auto; discriminate|intros ? ? _ []].
+Qed.
+
+Lemma rt_media_ne_master : rt_media <> rt_slide_master. Proof. vm_compute; discriminate. Qed.
+Lemma rt_video_ne_master : rt_video <> rt_slide_master. Proof. vm_compute; discriminate. Qed.
+Lemma not_link_media : ~ In rt_media link_types.
+Proof. intros H. vm_compute in H. destruct H as [H|[H|[]]]; discriminate. Qed.
+Lemma not_link_video : ~ In rt_video link_types.
+Proof. intros H. vm_compute in H. destruct H as [H|[H|[]]]; discriminate. Qed.
+
+Lemma rel_facts_target x rs rid t q : rel_facts x rs rid t (TInt q) -> In q (int_targets rs).
+Proof.
+  intros (_ & (r & Hr & _ & Hg) & _). apply find_rel_In in Hr as [Hin _]. apply int_targets_In. eauto.
+Qed.
+
+Lemma step_add_movie T s i v po : tables_ok T -> blob_ok T v -> match po with PImg b => blob_ok T b | _ => True end ->
+  Inv T s -> Inv T (fst (step false T s (AddMovie i v po))).
+Proof.
+  intros HT Hv Hpo HI. cbn [step]. rewrite fst_fin. eapply MH_true. unfold m_add_movie.
+  apply (MH_bind T _ _ s _ (fun _ _ => True) (MH_slide T s i HT HI)). intros sp s1 HI1 [Hs _].
+  destruct (slidep_editable s1 sp Hs) as (x & He & Ec & Hr). pose proof He as (Hx & Hnp & _).
+  pose proof (editable_not_master _ _ _ He) as Hnm.
+  assert (Hlist : listed s1 sp) by (destruct Hs as (_ & _ & _ & _ & H); exact H).
+  apply (MH_bind T _ _ s1 _ _ (MH_media T s1 v HT HI1 Hv)). intros mp s1' HI1' Hgot.
+  apply (MH_bind T _ _ s1' _ _ (MH_relate_got T s1 s1' sp x rt_media mp HT HI1 Hgot Hx Hnp Hnm rt_media_ne_master)).
+  intros media_rid s2 HI2 (Hg2 & rs & Hx2 & F).
+  assert (Hnp2 : sp <> st_pres s2) by (destruct Hg2 as (E & _); rewrite E; exact Hnp).
+  assert (Hl2 : listed s2 sp).
+  { eapply gframe_listed; eauto. destruct (iv_pres T s1 HI1) as (pp & Hpp & _). eauto. }
+  pose proof (listed_reach T s2 sp HI2 Hl2) as Hr2.
+  assert (Hmp : reachP s2 mp) by (eapply rp1; [exact Hr2|exact Hx2|eapply rel_facts_target; eauto]).
+  apply (MH_bind T _ _ s2 (fun rid s3 => exists rs3, s3 = setp s2 sp (with_rels (with_rels x rs) rs3) /\
+                                                      rel_facts (with_rels x rs) rs3 rid rt_video (TInt mp))).
+  { apply (MH_relate_int T s2 sp (with_rels x rs) rt_video mp []); auto; try (intros; contradiction).
+    - apply rt_video_ne_master.
+    - apply (reachP_lt s2 (inv_wfg T s2 HI2)). exact Hmp. }
+  intros video_rid s3 HI3 (rs3 & -> & F3).
+  set (x3 := with_rels (with_rels x rs) rs3).
+  assert (Hx3 : getp (setp s2 sp x3) sp = Some x3) by (apply getp_setp_same; eapply getp_lt; eauto).
+  assert (Hpost : forall b, blob_ok T b ->
+            MH T (do poster_rid <- m_part_image sp b ;; do x0 <- m_part sp ;;
+                  m_setp sp (with_refs x0 (pt_refs x0 ++ [(k_link, video_rid); (k_embed, media_rid); (k_embed, poster_rid)])))
+               (setp s2 sp x3) (fun _ _ => True)).
+  { intros b Hb.
+    apply (MH_bind T _ _ _ _ _ (MH_part_image T _ sp x3 b HT HI3 Hb Hx3 Hnp2 Hnm)).
+    intros poster_rid s4 HI4 (Hg4 & rs4 & ip & Hx4 & F4).
+    apply (MH_bind T _ _ s4 (fun y s5 => y = with_rels x3 rs4 /\ s5 = s4)); [apply (MH_part T s4 sp _ _ HI4 Hx4); auto|].
+    intros y s5 _ [-> ->]. apply MH_setp; auto.
+    apply (MH_add_refs T s4 sp _ [(k_link, video_rid); (k_embed, media_rid); (k_embed, poster_rid)]); auto.
+    - destruct Hg4 as (E & _). rewrite E. exact Hnp2.
+    - intros k0 r [[= <- <-]|[[= <- <-]|[[= <- <-]|[]]]].
+      + destruct F3 as (F3a & (r' & Hr' & Ht & Hg') & F3c). exists r'. split.
+        * apply (rel_facts_keep _ _ _ _ _ _ _ F4). exact Hr'.
+        * intros _. rewrite Ht. apply not_link_video.
+      + destruct F as (Fa & (r' & Hr' & Ht & Hg') & Fc). exists r'. split.
+        * apply (rel_facts_keep _ _ _ _ _ _ _ F4). apply (rel_facts_keep _ _ _ _ _ _ _ F3). exact Hr'.
+        * intros _. rewrite Ht. apply not_link_media.
+      + destruct F4 as (_ & (r' & Hr' & Ht & _) & _). exists r'. split; auto. intros _. rewrite Ht. apply not_link_image. }
+  destruct po as [|b|].
+  - apply (Hpost speaker_blob (speaker_blob_ok T HT)).
+  - apply (Hpost b Hpo).
+  - apply (MH_bind T _ _ _ (fun _ _ => False)); [apply MH_fail; auto|intros ? ? _ []].
+Qed.
+
+(* ------------------------------------------------------------------------------ *)
+(** * States that differ only in parts nobody reaches *)
+
+Definition ext_unreach (s s' : state) : Prop :=
+  st_prels s' = st_prels s /\ length (st_parts s) <= length (st_parts s') /\
+  forall p, reachP s p -> getp s' p = getp s p.
+
+Lemma ext_unreach_refl s : ext_unreach s s.
+Proof. repeat split; auto. Qed.
+
+Lemma ext_reach T s s' : Inv T s -> ext_unreach s s' -> forall p, reachP s' p -> reachP s p.
+Proof.
+  intros HI (Hr & _ & Hg) p Hp.
+  destruct (reach_frame s s' (fun _ => False)) with (p := p) as [|[]]; auto.
+  - intros q Hq. left. constructor. rewrite <- Hr. exact Hq.
+  - intros a x' q Hx' Hq [Ha|[]]. left. rewrite (Hg a Ha) in Hx'. eapply rp1; eauto.
+Qed.
+
+Lemma ext_reach_back s s' : ext_unreach s s' -> forall p, reachP s p -> reachP s' p.
+Proof.
+  intros (Hr & _ & Hg) p Hp. induction Hp as [q Hq|a q x Ha IH Hx Hq].
+  - constructor. rewrite Hr. exact Hq.
+  - eapply rp1; eauto. rewrite (Hg a Ha). exact Hx.
+Qed.
+
+Lemma ext_trans T s s1 s2 : Inv T s -> ext_unreach s s1 -> ext_unreach s1 s2 -> ext_unreach s s2.
+Proof.
+  intros HI (A1 & A2 & A3) (B1 & B2 & B3). split; [congruence|]. split; [lia|].
+  intros p Hp. rewrite B3, A3; auto. apply (ext_reach_back s s1); auto. repeat split; auto.
+Qed.
+
+Lemma ext_names T s s' nm : Inv T s -> Inv T s' -> ext_unreach s s' -> In nm (iter_names s') -> In nm (iter_names s).
+Proof.
+  intros HI HI' He H. apply (in_iter_names _ (inv_wfg T _ HI')) in H as (p & x & Hpx & En).
+  apply (reach_part_iff _ (inv_wfg T _ HI')) in Hpx as [Hr Hx].
+  pose proof (ext_reach T s s' HI He p Hr) as Hr0. destruct He as (_ & _ & Hg). rewrite (Hg p Hr0) in Hx.
+  apply (in_iter_names s (inv_wfg T s HI)). exists p, x. split; auto. apply (reach_part_iff s (inv_wfg T s HI)). auto.
+Qed.
+
+Lemma ext_addp T s y : Inv T s -> ext_unreach s (addp s y).
+Proof.
+  intros HI. split; [reflexivity|]. split; [unfold addp; cbn; rewrite app_length; lia|].
+  intros p Hp. unfold addp. apply getp_app_old. apply (reachP_lt s (inv_wfg T s HI)). exact Hp.
+Qed.
+
+Lemma ext_setp_unreach s p x : ~ reachP s p -> ext_unreach s (setp s p x).
+Proof.
+  intros Hn. split; [reflexivity|]. split; [rewrite length_setp; lia|].
+  intros q Hq. apply getp_setp_other. intros ->. contradiction.
+Qed.
+
+Lemma good_set_idl n x l : good_part n x -> pt_ct x <> ct_slide -> pt_ct x <> ct_notes_slide -> pt_ct x <> ct_slide_master ->
+  (forall r, In r l -> In r (map rr_id (pt_rels x))) -> good_part n (with_idl x l).
+Proof.
+  intros [H1 H2 H3 H4 H5 H6 H7 H8 H9 H10] C1 C2 C3 Hl.
+  assert (Hall : forall kr, In kr (all_refs (with_idl x l)) -> (fst kr = k_id /\ In (snd kr) l) \/ In kr (all_refs x)).
+  { intros kr. unfold all_refs. cbn [pt_idl pt_refs pt_slots with_idl]. intros Hin.
+    apply in_app_or in Hin as [Hin|Hin]; [|right; apply in_or_app; right; exact Hin].
+    apply in_map_iff in Hin as (r & <- & Hr). left. auto. }
+  constructor; cbn [pt_name pt_base pt_rels pt_ct]; auto.
+  - intros kr Hkr. destruct (Hall kr Hkr) as [[_ H]|H]; auto.
+  - intros k r x' Hkr Hk Hf. destruct (Hall _ Hkr) as [[E _]|H]; [contradiction|eapply H7; eauto].
+  - intros [E|E]; contradiction.
+  - intros E. contradiction.
+Qed.
+
+Lemma rt_package_ne_master : rt_package <> rt_slide_master. Proof. vm_compute; discriminate. Qed.
+Lemma rt_chart_ne_master : rt_chart <> rt_slide_master. Proof. vm_compute; discriminate. Qed.
+Lemma not_link_chart : ~ In rt_chart link_types.
+Proof. intros H. vm_compute in H. destruct H as [H|[H|[]]]; discriminate. Qed.
+Lemma ct_chart_ne_slide : ct_chart <> ct_slide. Proof. vm_compute; discriminate. Qed.
+Lemma ct_chart_ne_notes : ct_chart <> ct_notes_slide. Proof. vm_compute; discriminate. Qed.
+
+Lemma tp_chart_known : In tp_chart known_tps. Proof. simpl; tauto. Qed.
+Lemma tp_xlsx_known : In tp_xlsx known_tps. Proof. simpl; tauto. Qed.
+Lemma ct_chart_new : In ct_chart new_part_cts. Proof. simpl; tauto. Qed.
+Lemma ct_xlsx_new : In ct_xlsx new_part_cts. Proof. simpl; tauto. Qed.
+
+(* ------------------------------------------------------------------------------ *)
+(** * Charts *)
+
+Definition xlsx_part (k : N) : part := new_part (Ids.tmpl_apply (fst tp_xlsx) (snd tp_xlsx) k) ct_xlsx 0.
+
+Definition xlsx_post (s : state) (cp : nat) (c : part) (s1 : state) : Prop :=
+  (s1 = s /\ pt_idl c <> []) \/
+  exists k rs rid, ~ In (pt_name (xlsx_part k)) (iter_names s) /\
+    rel_facts c rs rid rt_package (TInt (length (st_parts s))) /\
+    s1 = setp (setp (addp s (xlsx_part k)) cp (with_rels c rs)) cp (with_idl (with_rels c rs) [rid]).
+
+Lemma MH_update_xlsx T s cp c : tables_ok T -> Inv T s -> getp s cp = Some c -> cp <> st_pres s -> pt_ct c = ct_chart ->
+  MH T (m_update_xlsx cp) s (fun _ s1 => xlsx_post s cp c s1).
+Proof.
+  intros HT HI Hc Hnp Ect. unfold m_update_xlsx.
+  assert (Hnm : pt_ct c <> ct_slide_master) by (rewrite Ect; apply ct_chart_ne_master).
+  apply (MH_bind T _ _ s (fun y s1 => y = c /\ s1 = s)); [apply (MH_part T s cp c); auto|].
+  intros y s1 _ [-> ->]. destruct (pt_idl c) as [|rid0 rest] eqn:Eidl.
+  - apply (MH_bind T _ _ s _ _ (MH_next_partname T s tp_xlsx HI tp_xlsx_known)). intros nm s2 _ (-> & Hf & k & ->).
+    pose proof (tmpl_leaf T s tp_xlsx k ct_xlsx 0 HT HI tp_xlsx_known ct_xlsx_new Hf) as Hl. fold (xlsx_part k) in Hl.
+    apply (MH_bind T _ _ s (fun xp s2 => xp = length (st_parts s) /\ s2 = addp s (xlsx_part k))).
+    { apply MH_new; [exact HT|exact HI|apply (lf_good _ _ _ Hl)|reflexivity|split; reflexivity]. }
+    intros xp s2 HI2 [-> ->].
+    apply (MH_bind T _ _ _ _ _ (MH_relate_leaf T s _ cp c rt_package HT HI Hl eq_refl Hc Hnp Hnm rt_package_ne_master)).
+    intros rid s3 HI3 (rs & -> & F).
+    assert (Hlt : cp < length (st_parts (addp s (xlsx_part k)))).
+    { unfold addp. cbn. rewrite app_length. pose proof (getp_lt s cp c Hc). lia. }
+    apply (MH_bind T _ _ _ (fun y s4 => y = with_rels c rs /\ s4 = setp (addp s (xlsx_part k)) cp (with_rels c rs))).
+    { apply (MH_part T _ cp (with_rels c rs)); auto. apply getp_setp_same. exact Hlt. }
+    intros y s4 _ [-> ->]. apply MH_setp.
+    + apply (inv_setp T _ cp (with_rels c rs) _ []); auto; try (intros; contradiction).
+      * apply getp_setp_same. exact Hlt.
+      * apply good_set_idl.
+        -- apply (iv_parts T _ HI3 cp). apply getp_setp_same. exact Hlt.
+        -- cbn. rewrite Ect. apply ct_chart_ne_slide.
+        -- cbn. rewrite Ect. apply ct_chart_ne_notes.
+        -- cbn. exact Hnm.
+        -- intros r [<-|[]]. cbn. destruct F as (_ & (r' & Hr' & _) & _). apply find_rel_In in Hr' as [Hin <-].
+           apply in_map. exact Hin.
+    + right. exists k, rs, rid. auto.
+  - apply (MH_bind T _ _ s (fun _ s1 => s1 = s)); [apply MH_lift; auto|]. intros _ s1 _ ->. apply MH_ret; auto. left; split; auto. rewrite Eidl. discriminate.
+Qed.
+
+Lemma setp_setp s p x y : setp (setp s p x) p y = setp s p y.
+Proof.
+  unfold setp, with_parts. cbn. f_equal. generalize (st_parts s). intros l. revert p.
+  induction l as [|a l IH]; intros [|p]; simpl; auto. f_equal. apply IH.
+Qed.
+
+Lemma chart_name_dir k : baseURI (Ids.tmpl_apply (fst tp_chart) (snd tp_chart) k) = asc "/ppt/charts".
+Proof.
+  change (fst tp_chart) with (render ([asc "ppt"; asc "charts"] ++ [asc "chart"])).
+  destruct (tmpl_name_facts [asc "ppt"; asc "charts"] (asc "chart") (snd tp_chart) k) as [_ B];
+    [repeat constructor|discriminate|vm_compute; discriminate|reflexivity|reflexivity|exact B].
+Qed.
+
+Lemma xlsx_name_dir k : baseURI (Ids.tmpl_apply (fst tp_xlsx) (snd tp_xlsx) k) = asc "/ppt/embeddings".
+Proof.
+  change (fst tp_xlsx) with (render ([asc "ppt"; asc "embeddings"] ++ [asc "Microsoft_Excel_Sheet"])).
+  destruct (tmpl_name_facts [asc "ppt"; asc "embeddings"] (asc "Microsoft_Excel_Sheet") (snd tp_xlsx) k) as [_ B];
+    [repeat constructor|discriminate|vm_compute; discriminate|reflexivity|reflexivity|exact B].
+Qed.
+
+Lemma leaf_new_ok T s s' y : Inv T s -> Inv T s' -> ext_unreach s s' -> leaf_ok T s y ->
+  new_ok T s' y /\ baseURI (pt_name y) <> s_slides_dir /\ pt_name y <> n_notes_master /\ pt_name y <> n_core.
+Proof.
+  intros HI HI' He [G Hi Hf Hb Hd Hn Hc]. split; [|auto]. constructor; auto.
+  intros Hin. apply Hf. eapply ext_names; eauto.
+Qed.
+
+Lemma step_add_chart T s i : tables_ok T -> Inv T s -> Inv T (fst (step false T s (AddChart i))).
+Proof.
+  intros HT HI. cbn [step]. rewrite fst_fin. eapply MH_true. unfold m_add_chart.
+  apply (MH_bind T _ _ s _ (fun _ _ => True) (MH_slide T s i HT HI)). intros sp s1 HI1 [Hs _].
+  destruct (slidep_editable s1 sp Hs) as (x & He & Ec & Hr). pose proof He as (Hx & Hnp & _).
+  pose proof (editable_not_master _ _ _ He) as Hnm. pose proof (getp_lt s1 sp x Hx) as Hsplt.
+  apply (MH_bind T _ _ s1 _ _ (MH_next_partname T s1 tp_chart HI1 tp_chart_known)). intros nm s2 _ (-> & Hf & kc & ->).
+  set (C0 := new_part (Ids.tmpl_apply (fst tp_chart) (snd tp_chart) kc) ct_chart 0).
+  pose proof (tmpl_leaf T s1 tp_chart kc ct_chart 0 HT HI1 tp_chart_known ct_chart_new Hf) as Hlc. fold C0 in Hlc.
+  set (cp := length (st_parts s1)).
+  apply (MH_bind T _ _ s1 (fun a s2 => a = cp /\ s2 = addp s1 C0)).
+  { apply MH_new; [exact HT|exact HI1|apply (lf_good _ _ _ Hlc)|reflexivity|split; reflexivity]. }
+  intros a s2 HI2 [-> ->]. set (sA := addp s1 C0) in *.
+  assert (HC0 : getp sA cp = Some C0) by apply getp_app_new.
+  assert (Hcp_np : cp <> st_pres sA).
+  { cbn. destruct (iv_pres T s1 HI1) as (pp & Hpp & _). pose proof (getp_lt s1 _ pp Hpp). unfold cp. lia. }
+  apply (MH_bind T _ _ _ _ _ (MH_update_xlsx T sA cp C0 HT HI2 HC0 Hcp_np eq_refl)).
+  intros [] s3 HI3 [[_ Hne]|(kx & rs & rid1 & Hfx & F & ->)]; [exfalso; apply Hne; reflexivity|].
+  rewrite setp_setp in *. set (X := xlsx_part kx) in *. set (sB := addp sA X) in *.
+  set (C2 := with_idl (with_rels C0 rs) [rid1]) in *.
+  assert (HlenA : length (st_parts sA) = S cp) by (unfold sA, addp; cbn; rewrite app_length; simpl; unfold cp; lia).
+  assert (HlenB : length (st_parts sB) = S (S cp)) by (unfold sB, addp; cbn [st_parts with_parts]; rewrite app_length, HlenA; simpl; lia).
+  set (xp := length (st_parts sA)) in *.
+  assert (Hrs : int_targets rs = [xp]).
+  { destruct F as ([->|[-> _]] & (r & Hr' & _) & _); [cbn in Hr'; discriminate|]. reflexivity. }
+  assert (Hnr_cp : ~ reachP sB cp).
+  { intros H. assert (He1 : ext_unreach s1 sB) by (eapply ext_trans; [exact HI1|apply (ext_addp T s1 C0 HI1)|apply (ext_addp T sA X HI2)]).
+    apply (ext_reach T s1 sB HI1 He1) in H. pose proof (reachP_lt s1 (inv_wfg T s1 HI1) cp H). unfold cp in *. lia. }
+  assert (HIB : Inv T sB).
+  { apply inv_append; auto. pose proof (tmpl_leaf T sA tp_xlsx kx ct_xlsx 0 HT HI2 tp_xlsx_known ct_xlsx_new Hfx) as Hlx.
+    apply (lf_good _ _ _ Hlx). }
+  assert (He13 : ext_unreach s1 (setp sB cp C2)).
+  { eapply ext_trans; [exact HI1| |apply ext_setp_unreach; exact Hnr_cp].
+    eapply ext_trans; [exact HI1|apply (ext_addp T s1 C0 HI1)|apply (ext_addp T sA X HI2)]. }
+  assert (HeA3 : ext_unreach sA (setp sB cp C2)).
+  { eapply ext_trans; [exact HI2|apply (ext_addp T sA X HI2)|apply ext_setp_unreach; exact Hnr_cp]. }
+  set (s3 := setp sB cp C2) in *.
+  assert (Hcp3 : getp s3 cp = Some C2) by (apply getp_setp_same; rewrite HlenB; lia).
+  assert (Hxp3 : getp s3 xp = Some X).
+  { unfold s3. rewrite getp_setp_other by lia. apply getp_app_new. }
+  assert (Hsp3 : getp s3 sp = Some x).
+  { unfold s3. rewrite getp_setp_other by (unfold cp; lia). unfold sB, addp. rewrite getp_app_old by (fold xp; unfold cp in *; lia).
+    unfold sA, addp. rewrite getp_app_old; auto. }
+  assert (Hnr3 : forall n, n = cp \/ n = xp -> ~ reachP s3 n).
+  { intros n Hn H. apply (ext_reach T s1 s3 HI1 He13) in H. pose proof (reachP_lt s1 (inv_wfg T s1 HI1) n H).
+    destruct Hn as [->| ->]; unfold cp in *; lia. }
+  apply (MH_bind T _ _ s3 (fun rid s4 => exists rs4, s4 = setp s3 sp (with_rels x rs4) /\ rel_facts x rs4 rid rt_chart (TInt cp))).
+  { apply (MH_relate_int T s3 sp x rt_chart cp [cp; xp]); auto.
+    - apply rt_chart_ne_master.
+    - unfold s3. rewrite length_setp, HlenB. lia.
+    - intros [E|[E|[]]]; unfold cp in *; lia.
+    - right. left. simpl. auto.
+    - intros n y q' [<-|[<-|[]]] Hy Hq'.
+      + rewrite Hcp3 in Hy. injection Hy as <-. unfold C2 in Hq'. cbn [pt_rels with_idl with_rels] in Hq'.
+        rewrite Hrs in Hq'. destruct Hq' as [<-|[]]. right. simpl. auto.
+      + rewrite Hxp3 in Hy. injection Hy as <-. destruct Hq'.
+    - intros n y [<-|[<-|[]]] _ Hy.
+      + rewrite Hcp3 in Hy. injection Hy as <-.
+        destruct (leaf_new_ok T s1 s3 C0 HI1 HI3 He13 Hlc) as ([Hfr Hb] & D1 & D2 & D3).
+        split; [constructor; auto|auto].
+      + rewrite Hxp3 in Hy. injection Hy as <-.
+        pose proof (tmpl_leaf T sA tp_xlsx kx ct_xlsx 0 HT HI2 tp_xlsx_known ct_xlsx_new Hfx) as Hlx.
+        apply (leaf_new_ok T sA s3 _ HI2 HI3 HeA3 Hlx).
+    - intros n m y z Hn Hm Hne _ _ Hy Hz.
+      assert (Hdiff : pt_name C2 <> pt_name X).
+      { intros E. pose proof (chart_name_dir kc) as B1. pose proof (xlsx_name_dir kx) as B2.
+        change (pt_name C2) with (Ids.tmpl_apply (fst tp_chart) (snd tp_chart) kc) in E.
+        change (pt_name X) with (Ids.tmpl_apply (fst tp_xlsx) (snd tp_xlsx) kx) in E.
+        rewrite E in B1. rewrite B1 in B2. vm_compute in B2. discriminate. }
+      destruct Hn as [<-|[<-|[]]], Hm as [<-|[<-|[]]]; try contradiction.
+      + rewrite Hcp3 in Hy. rewrite Hxp3 in Hz. injection Hy as <-. injection Hz as <-. exact Hdiff.
+      + rewrite Hxp3 in Hy. rewrite Hcp3 in Hz. injection Hy as <-. injection Hz as <-. intros E. apply Hdiff. auto. }
+  intros rid s4 HI4 (rs4 & -> & F4). unfold m_add_ref.
+  assert (Hsp4 : getp (setp s3 sp (with_rels x rs4)) sp = Some (with_rels x rs4)).
+  { apply getp_setp_same. unfold s3. rewrite length_setp, HlenB. unfold cp. lia. }
+  apply (MH_bind T _ _ _ (fun y s5 => y = with_rels x rs4 /\ s5 = setp s3 sp (with_rels x rs4))); [apply (MH_part T _ sp _ _ HI4 Hsp4); auto|].
+  intros y s5 _ [-> ->]. apply MH_setp; auto.
+  apply (MH_add_refs T _ sp (with_rels x rs4) [(k_id, rid)]); auto.
+  intros k0 r [[= <- <-]|[]]. destruct F4 as (_ & (r' & Hr' & Ht & _) & _). exists r'. split; auto; intros H; contradiction.
+Qed.
+
+Lemma class_not_pres T s p x ct : Inv T s -> getp s p = Some x -> pt_ct x = ct -> In ct class_cts -> p <> st_pres s.
+Proof.
+  intros HI Hx Ec Hin ->. destruct (iv_pres T s HI) as (pp & Hpp & Hc). rewrite Hpp in Hx. injection Hx as <-.
+  apply Hc. rewrite Ec. exact Hin.
+Qed.
+
+Lemma step_replace_data T s i j : tables_ok T -> Inv T s -> Inv T (fst (step false T s (ReplaceData i j))).
+Proof.
+  intros HT HI. cbn [step]. rewrite fst_fin. eapply MH_true. unfold m_replace_data.
+  apply (MH_bind T _ _ s _ (fun _ _ => True) (MH_slide T s i HT HI)). intros sp s1 HI1 [Hs _].
+  destruct (slidep_editable s1 sp Hs) as (x & He & Ec & Hr). pose proof He as (Hx & Hnp & _).
+  apply (MH_bind T _ _ s1 (fun y s3 => y = x /\ s3 = s1)); [apply (MH_part T s1 sp x); auto|].
+  intros y s3 _ [-> ->]. destruct (nth_error (chart_parts x) j) as [cp|]; [|apply MH_ret; auto].
+  apply (MH_bind T _ _ s1 (fun _ s2 => s2 = s1 /\ exists c, getp s1 cp = Some c /\ pt_ct c = ct_chart)).
+  { apply MH_class; auto. intros c Hc Ect. split; eauto. }
+  intros [] s2 _ (-> & c & Hc & Ect).
+  assert (Hcnp : cp <> st_pres s1) by (eapply class_not_pres; eauto; simpl; tauto).
+  apply (MH_bind T _ _ s1 _ _ (MH_update_xlsx T s1 cp c HT HI1 Hc Hcnp Ect)). intros [] s4 HI4 _. apply MH_ret; auto.
+Qed.
+
+(* ------------------------------------------------------------------------------ *)
+(** * Replacing the presentation part: more relationships, a longer slide id list *)
+
+Lemma related_part_app_old rid rs extra q : related_part rid rs = Ok q -> related_part rid (rs ++ extra) = Ok q.
+Proof.
+  unfold related_part. destruct (find_rel rid rs) as [r|] eqn:E; [|discriminate]. intros H.
+  rewrite find_rel_app_old; [rewrite E; exact H|]. apply find_rel_In in E as [Hin <-]. apply in_map. exact Hin.
+Qed.
+
+Lemma Forall2_app_intro {A B} (R : A -> B -> Prop) l1 l2 m1 m2 : Forall2 R l1 m1 -> Forall2 R l2 m2 -> Forall2 R (l1 ++ l2) (m1 ++ m2).
+Proof. induction 1; simpl; auto. Qed.
+
+Section SetPres.
+Variable T : tables.
+Variable s : state.
+Variables (pp pp' : part) (N : list nat) (extra : list relr) (idlx : list str) (tgx : list nat).
+Hypothesis HT : tables_ok T.
+Hypothesis HI : Inv T s.
+Hypothesis Hpp : getp s (st_pres s) = Some pp.
+Hypothesis En : pt_name pp' = pt_name pp.
+Hypothesis Ec : pt_ct pp' = pt_ct pp.
+Hypothesis Hgood : good_part (length (st_parts s)) pp'.
+Hypothesis Hrels : pt_rels pp' = pt_rels pp ++ extra.
+Hypothesis Hidl : pt_idl pp' = pt_idl pp ++ idlx.
+Hypothesis HFx : Forall2 (fun rid q => related_part rid (pt_rels pp') = Ok q) idlx tgx.
+Hypothesis Hedges : forall q, In q (int_targets extra) -> reachP s q \/ In q N.
+Hypothesis HpN : ~ In (st_pres s) N.
+Hypothesis HNcl : forall n y q, In n N -> getp s n = Some y -> In q (int_targets (pt_rels y)) -> reachP s q \/ In q N.
+Hypothesis HNok : forall n y, In n N -> ~ reachP s n -> getp s n = Some y ->
+  new_ok T s y /\ (baseURI (pt_name y) = s_slides_dir -> In n tgx) /\
+  (pt_name y = n_notes_master -> type_filter rt_notes_master extra <> []) /\ pt_name y <> n_core.
+Hypothesis HNd : forall n m y z, In n N -> In m N -> n <> m -> ~ reachP s n -> ~ reachP s m ->
+  getp s n = Some y -> getp s m = Some z -> pt_name y <> pt_name z.
+Hypothesis Htgx : NoDup tgx /\ forall q, In q tgx -> ~ reachP s q /\ baseURI (name_of (st_parts s) q) = s_slides_dir.
+Hypothesis Htgx_names : st_slides s = true -> forall j q, nth_error tgx j = Some q ->
+  name_of (st_parts s) q = Ids.slide_name (N.of_nat (length (pt_idl pp) + j) + 1)%N.
+Hypothesis Hnm_extra : forall p, st_nm s = Some p -> type_filter rt_notes_master extra = [].
+Hypothesis Hmf : type_filter rt_slide_master extra = [].
+
+Let s' := setp s (st_pres s) pp'.
+Let Hw : wfg s := inv_wfg T s HI.
+Let Hlt : st_pres s < length (st_parts s) := getp_lt s _ pp Hpp.
+
+Lemma pr_getp q : getp s' q = if Nat.eqb (st_pres s) q then Some pp' else getp s q.
+Proof.
+  unfold s'. destruct (Nat.eqb_spec (st_pres s) q) as [<-|Hne]; [apply getp_setp_same; auto|apply getp_setp_other; auto].
+Qed.
+
+Lemma pr_parts q y : getp s' q = Some y -> good_part (length (st_parts s')) y.
+Proof.
+  unfold s'. rewrite length_setp. fold s'. rewrite pr_getp. destruct (Nat.eqb (st_pres s) q).
+  - intros [= <-]. exact Hgood.
+  - apply (iv_parts T s HI).
+Qed.
+
+Lemma pr_wfg : wfg s'.
+Proof.
+  split.
+  - unfold s'. rewrite length_setp. apply (iv_ptgts T s HI).
+  - intros a y q Hy Hq. exact (gp_tgts _ _ (pr_parts a y Hy) q Hq).
+Qed.
+
+Lemma pr_reach q : reachP s' q -> reachP s q \/ In q N.
+Proof.
+  apply (reach_frame s s' (fun q => In q N)).
+  - intros r Hr. left. constructor. exact Hr.
+  - intros a y q0 Hy Hq Ha. rewrite pr_getp in Hy. destruct (Nat.eqb_spec (st_pres s) a) as [<-|Hne].
+    + injection Hy as <-. rewrite Hrels, int_targets_app in Hq. apply in_app_or in Hq as [Hq|Hq]; [|auto].
+      left. eapply rp1; [apply (pres_reach T s HI)|exact Hpp|exact Hq].
+    + destruct Ha as [Ha|Ha]; [left; eapply rp1; eauto|eapply HNcl; eauto].
+Qed.
+
+Lemma pr_old q y y' : reachP s q -> getp s q = Some y -> getp s' q = Some y' ->
+  pt_name y' = pt_name y /\ pt_ct y' = pt_ct y.
+Proof.
+  intros _ Hy Hy'. rewrite pr_getp in Hy'. destruct (Nat.eqb_spec (st_pres s) q) as [<-|Hne].
+  - injection Hy' as <-. rewrite Hpp in Hy. injection Hy as <-. auto.
+  - rewrite Hy in Hy'. injection Hy' as <-. auto.
+Qed.
+
+Lemma pr_N n y' : In n N -> getp s' n = Some y' -> getp s n = Some y'.
+Proof.
+  intros Hn Hy'. rewrite pr_getp in Hy'. destruct (Nat.eqb_spec (st_pres s) n) as [<-|Hne]; [contradiction|exact Hy'].
+Qed.
+
+Theorem inv_setp_pres : Inv T s'.
+Proof.
+  assert (Hnames : forall q, name_of (st_parts s') q = name_of (st_parts s) q)
+    by (intros q; apply (name_of_setp s _ pp pp' q Hpp En)).
+  assert (HNnew : forall n y', In n N -> ~ reachP s n -> getp s' n = Some y' -> new_ok T s y').
+  { intros n y' Hn Hr Hy'. apply (HNok n y' Hn Hr). apply pr_N; auto. }
+  assert (HNdist : forall n m y z, In n N -> In m N -> n <> m -> ~ reachP s n -> ~ reachP s m ->
+                     getp s' n = Some y -> getp s' m = Some z -> pt_name y <> pt_name z).
+  { intros n m y z Hn Hm Hne Rn Rm Hy Hz. apply (HNd n m y z); auto; apply pr_N; auto. }
+  assert (Hpp' : getp s' (st_pres s') = Some pp') by (apply getp_setp_same; auto).
+  constructor.
+  - exact pr_parts.
+  - unfold s'. rewrite length_setp. apply (iv_ptgts T s HI).
+  - apply (iv_pkeys T s HI).
+  - apply (iv_pnocache T s HI).
+  - apply (tr_names T s s' N HI pr_wfg pr_reach pr_old HNnew HNdist).
+  - apply (iv_main T s HI).
+  - exists pp'. split; auto. rewrite Ec. destruct (iv_pres T s HI) as (pp0 & Hpp0 & Hc).
+    rewrite Hpp in Hpp0. injection Hpp0 as <-. exact Hc.
+  - apply (tr_clash T s s' N HT HI pr_wfg pr_reach pr_old HNnew).
+  - destruct (iv_slides T s HI) as (pp0 & tg & Hpp0 & HF & Hnd & Hdir & Hall & Hnm').
+    rewrite Hpp in Hpp0. injection Hpp0 as <-.
+    assert (Htg_reach : forall q, In q tg -> reachP s q).
+    { intros q Hq. apply In_nth_error in Hq as (j & Hj).
+      assert (exists rid, related_part rid (pt_rels pp) = Ok q) as (rid & Hr).
+      { clear - HF Hj. revert j Hj. induction HF; intros j Hj; [destruct j; discriminate|].
+        destruct j; simpl in *; [injection Hj as <-; eauto|eauto]. }
+      eapply rp1; [apply (pres_reach T s HI)|exact Hpp|]. apply related_part_target in Hr. exact Hr. }
+    exists pp', (tg ++ tgx). split; auto. split; [|split; [|split; [|split]]].
+    + rewrite Hidl. apply Forall2_app_intro; auto. rewrite Hrels.
+      eapply Forall2_impl; [|exact HF]. intros a b. apply related_part_app_old.
+    + apply Opc_proofs.NoDup_app_intro; auto; [apply (proj1 Htgx)|].
+      intros q Hq Hq'. apply (proj1 (proj2 Htgx q Hq')). apply Htg_reach. exact Hq.
+    + intros q Hq. rewrite Hnames. apply in_app_or in Hq as [Hq|Hq]; auto. apply (proj2 Htgx q Hq).
+    + apply (tr_dir T s s' N HI pr_wfg pr_reach pr_old tg (tg ++ tgx)); auto; [apply incl_appl, incl_refl|].
+      intros n y' Hn Rn Hy' Hd. apply in_or_app. right.
+      destruct (HNok n y' Hn Rn (pr_N n y' Hn Hy')) as (_ & H & _). auto.
+    + intros Hs j q Hj. rewrite Hnames. change (st_slides s') with (st_slides s) in Hs.
+      assert (Hlen : length tg = length (pt_idl pp)) by (symmetry; eapply Ids_proofs.Forall2_len; eauto).
+      destruct (Nat.ltb_spec j (length tg)) as [Hl|Hl].
+      * rewrite nth_error_app1 in Hj by auto. apply Hnm'; auto.
+      * rewrite nth_error_app2 in Hj by auto. rewrite (Htgx_names Hs _ _ Hj). f_equal. lia.
+  - intros m mx rid lp lx m' Hm Hct Hrid Hlp Hlx Hm'.
+    rewrite pr_getp in Hm. destruct (Nat.eqb_spec (st_pres s) m) as [<-|Hne].
+    { injection Hm as <-. exfalso. destruct (iv_pres T s HI) as (pp0 & Hpp0 & Hc). rewrite Hpp in Hpp0.
+      injection Hpp0 as <-. apply Hc. rewrite <- Ec, Hct. simpl. tauto. }
+    rewrite pr_getp in Hlx. destruct (Nat.eqb_spec (st_pres s) lp) as [<-|Hne2].
+    + injection Hlx as <-. assert (E : type_filter rt_slide_master (pt_rels pp') = type_filter rt_slide_master (pt_rels pp)).
+      { rewrite Hrels, type_filter_app, Hmf. apply app_nil_r. }
+      rewrite (part_with_reltype_filter _ _ _ E) in Hm'. eapply (iv_master T s HI); eauto.
+    + eapply (iv_master T s HI); eauto.
+  - destruct (iv_fixed T s HI) as (F1 & F2 & F3).
+    split; [|split].
+    + intros pp0 Hpp0 H. rewrite Hpp' in Hpp0. injection Hpp0 as <-.
+      change (filter (fun r => str_eqb (rr_type r) rt_notes_master) (pt_rels pp')) with (type_filter rt_notes_master (pt_rels pp')).
+      rewrite Hrels, type_filter_app.
+      destruct (tr_name_in T s s' N HI pr_wfg pr_reach pr_old _ H) as [Hin|(n & y' & Hn & Rn & Hy' & E)].
+      * pose proof (F1 pp Hpp Hin) as Hne. intros E. apply app_eq_nil in E as [E _]. apply Hne. exact E.
+      * destruct (HNok n y' Hn Rn (pr_N n y' Hn Hy')) as (_ & _ & H1 & _). intros E'. apply app_eq_nil in E' as [_ E'].
+        apply (H1 E). exact E'.
+    + intros H. apply F2.
+      destruct (tr_name_in T s s' N HI pr_wfg pr_reach pr_old _ H) as [Hin|(n & y' & Hn & Rn & Hy' & E)]; auto.
+      exfalso. destruct (HNok n y' Hn Rn (pr_N n y' Hn Hy')) as (_ & _ & _ & H2). auto.
+    + intros pp0 q Hpp0 Hq. rewrite Hpp' in Hpp0. injection Hpp0 as <-. change (st_nm s') with (st_nm s) in Hq.
+      assert (E : type_filter rt_notes_master (pt_rels pp') = type_filter rt_notes_master (pt_rels pp)).
+      { rewrite Hrels, type_filter_app, (Hnm_extra q Hq). apply app_nil_r. }
+      rewrite (part_with_reltype_filter _ _ _ E). apply (F3 pp q Hpp Hq).
+Qed.
+End SetPres.
+
+(* ------------------------------------------------------------------------------ *)
+(** * Slides.add_slide *)
+
+Definition pureM {A} (m : M A) : Prop := forall s, fst (m s) = s.
+
+Lemma pure_bind {A B} (m : M A) (f : A -> M B) : pureM m -> (forall a, pureM (f a)) -> pureM (bindM m f).
+Proof.
+  intros Hm Hf s. unfold bindM. specialize (Hm s). destruct (m s) as [s1 [a|e]]; cbn in *; subst; auto. apply Hf.
+Qed.
+Lemma pure_ret {A} (a : A) : pureM (ret a). Proof. intros s. reflexivity. Qed.
+Lemma pure_fail {A} e : pureM (@fail A e). Proof. intros s. reflexivity. Qed.
+Lemma pure_lift {A} (r : res A) : pureM (lift r). Proof. intros s. reflexivity. Qed.
+Lemma pure_getS : pureM getS. Proof. intros s. reflexivity. Qed.
+Lemma pure_part p : pureM (m_part p).
+Proof. unfold m_part. apply pure_bind; [apply pure_getS|]. intros s0. destruct (getp s0 p); [apply pure_ret|apply pure_fail]. Qed.
+Lemma pure_class p ct : pureM (m_class p ct).
+Proof. unfold m_class. apply pure_bind; [apply pure_part|]. intros x. destruct (str_eqb (pt_ct x) ct); [apply pure_ret|apply pure_fail]. Qed.
+
+Lemma layout_pure s l : fst (m_layout l s) = s.
+Proof.
+  revert s. change (pureM (m_layout l)). unfold m_layout.
+  apply pure_bind; [apply pure_getS|]. intros s0. apply pure_bind; [apply pure_part|]. intros pp.
+  destruct (st_mrid s0); [|apply pure_fail].
+  apply pure_bind; [apply pure_lift|]. intros m. apply pure_bind; [apply pure_class|]. intros _.
+  apply pure_bind; [apply pure_part|]. intros mp. destruct (nth_error (pt_idl mp) l); [|apply pure_fail].
+  apply pure_bind; [apply pure_lift|]. intros lp. apply pure_bind; [apply pure_class|]. intros _. apply pure_ret.
+Qed.
+
+Lemma layout_facts s l m lp rid : snd (m_layout l s) = Ok (m, lp, rid) ->
+  exists pp mrid mp lx, getp s (st_pres s) = Some pp /\ st_mrid s = Some mrid /\ related_part mrid (pt_rels pp) = Ok m /\
+    getp s m = Some mp /\ pt_ct mp = ct_slide_master /\ nth_error (pt_idl mp) l = Some rid /\
+    related_part rid (pt_rels mp) = Ok lp /\ getp s lp = Some lx /\ pt_ct lx = ct_slide_layout.
+Proof.
+  unfold m_layout, bindM, getS, m_part, bindM, getS, ret, fail, lift, m_class, m_part, bindM, getS, ret, fail.
+  destruct (getp s (st_pres s)) as [pp|] eqn:E1; cbn; [|discriminate].
+  destruct (st_mrid s) as [mrid|] eqn:E2; cbn; [|discriminate].
+  destruct (related_part mrid (pt_rels pp)) as [m0|] eqn:E3; cbn; [|discriminate].
+  destruct (getp s m0) as [mp|] eqn:E4; cbn; [|discriminate].
+  destruct (str_eqb_spec (pt_ct mp) ct_slide_master) as [E5|]; cbn; [|discriminate].
+  rewrite E4. cbn.
+  destruct (nth_error (pt_idl mp) l) as [rid0|] eqn:E6; cbn; [|discriminate].
+  destruct (related_part rid0 (pt_rels mp)) as [lp0|] eqn:E7; cbn; [|discriminate].
+  destruct (getp s lp0) as [lx|] eqn:E8; cbn; [|discriminate].
+  destruct (str_eqb_spec (pt_ct lx) ct_slide_layout) as [E9|]; cbn; [|discriminate].
+  intros [= <- <- <-]. exists pp, mrid, mp, lx. repeat split; auto.
+Qed.
+
+Lemma MH_layout T s l : Inv T s ->
+  MH T (m_layout l) s (fun r s1 => s1 = s /\ snd (m_layout l s) = Ok r).
+Proof. intros HI. unfold MH. rewrite layout_pure. split; auto. Qed.
+
+Lemma master_reach T s pp mrid m : Inv T s -> getp s (st_pres s) = Some pp -> related_part mrid (pt_rels pp) = Ok m -> reachP s m.
+Proof.
+  intros HI Hpp Hr. eapply rp1; [apply (pres_reach T s HI)|exact Hpp|]. apply related_part_target in Hr. exact Hr.
+Qed.
+
+Lemma slide_name_fresh T s pp : Inv T s -> st_slides s = true -> getp s (st_pres s) = Some pp ->
+  ~ In (Ids.next_slide_partname (length (pt_idl pp))) (iter_names s).
+Proof.
+  intros HI Hs Hpp Hin. pose proof (inv_wfg T s HI) as Hw.
+  destruct (iv_slides T s HI) as (pp0 & tg & Hpp0 & HF & Hnd & Hdir & Hall & Hnm).
+  rewrite Hpp in Hpp0. injection Hpp0 as <-.
+  apply (in_iter_names s Hw) in Hin as (p & x & Hpx & En).
+  assert (Hd : baseURI (pt_name x) = s_slides_dir) by (rewrite En; apply slide_name_facts).
+  pose proof (Hall p x Hpx Hd) as Hp. apply In_nth_error in Hp as (j & Hj).
+  pose proof (Hnm Hs j p Hj) as E. destruct Hpx as [_ Hx]. rewrite (name_of_getp s p x Hx), En in E.
+  unfold Ids.next_slide_partname in E. apply Ids_proofs.slide_name_inj in E.
+  assert (j < length tg) by (apply nth_error_Some; congruence).
+  pose proof (Ids_proofs.Forall2_len _ _ _ HF). lia.
+Qed.
+
+Lemma rt_slide_layout_ne_master : rt_slide_layout <> rt_slide_master. Proof. vm_compute; discriminate. Qed.
+
+Lemma ct_slide_new : In ct_slide new_part_cts. Proof. simpl; tauto. Qed.
+
+Lemma pres_not_class T s pp : Inv T s -> getp s (st_pres s) = Some pp ->
+  pt_ct pp <> ct_slide /\ pt_ct pp <> ct_notes_slide /\ pt_ct pp <> ct_slide_master.
+Proof.
+  intros HI Hpp. destruct (iv_pres T s HI) as (pp0 & Hpp0 & Hc). rewrite Hpp in Hpp0. injection Hpp0 as <-.
+  repeat split; intros E; apply Hc; rewrite E; simpl; tauto.
+Qed.
+
+Lemma step_add_slide T s l : tables_ok T -> Inv T s -> Inv T (fst (step false T s (AddSlide l))).
+Proof.
+  intros HT HI. cbn [step]. rewrite fst_fin. eapply MH_true. unfold m_add_slide.
+  apply (MH_bind T _ _ s _ (fun _ _ => True) (MH_access T s HT HI)). intros [] s1 HI1 [Hs1 _].
+  apply (MH_bind T _ _ s1 _ _ (MH_layout T s1 l HI1)). intros [[m lp] rid0] s2 _ [-> Hlay].
+  destruct (layout_facts s1 l m lp rid0 Hlay) as (pp & mrid & mp & lx & Hpp & Hmr & Hm & Hmp & Ecm & Hnth & Hlp & Hlx & Ecl).
+  apply (MH_bind T _ _ s1 (fun a s2 => a = s1 /\ s2 = s1)); [apply MH_getS; auto|]. intros a s2 _ [-> ->].
+  apply (MH_bind T _ _ s1 (fun a s2 => a = pp /\ s2 = s1)); [apply (MH_part T s1 _ pp); auto|]. intros a s2 _ [-> ->].
+  apply (MH_bind T _ _ s1 (fun a s2 => a = lx /\ s2 = s1)); [apply (MH_part T s1 _ lx); auto|]. intros a s2 _ [-> ->].
+  pose proof (inv_wfg T s1 HI1) as Hw1.
+  assert (Hrm : reachP s1 m) by (eapply master_reach; eauto).
+  assert (Hrl : reachP s1 lp) by (eapply rp1; [exact Hrm|exact Hmp|apply related_part_target in Hlp; exact Hlp]).
+  set (nm := Ids.next_slide_partname (length (pt_idl pp))).
+  assert (Hnmf : ~ In nm (iter_names s1)) by (apply (slide_name_fresh T s1 pp HI1 Hs1 Hpp)).
+  destruct (slide_name_facts (N.of_nat (length (pt_idl pp)) + 1)%N) as [Hpn Hdir].
+  change (Ids.slide_name (N.of_nat (length (pt_idl pp)) + 1)%N) with nm in Hpn, Hdir.
+  set (Y := with_phs (new_part nm ct_slide 0) (pt_phs lx)).
+  assert (HgY : forall n, good_part n Y) by (intros n; apply good_with_phs; apply good_new_part; exact Hpn).
+  set (sid := length (st_parts s1)).
+  apply (MH_bind T _ _ s1 (fun a s2 => a = sid /\ s2 = addp s1 Y)).
+  { apply MH_new; [exact HT|exact HI1|apply HgY|reflexivity|split; reflexivity]. }
+  intros a s2 HI2 [-> ->]. set (sA := addp s1 Y) in *.
+  assert (HlenA : length (st_parts sA) = S sid) by (unfold sA, addp; cbn [st_parts with_parts]; rewrite app_length; simpl; unfold sid; lia).
+  assert (HYA : getp sA sid = Some Y) by apply getp_app_new.
+  assert (Hsid_np : sid <> st_pres sA) by (cbn; pose proof (getp_lt s1 _ pp Hpp); unfold sid; lia).
+  assert (HeA : ext_unreach s1 sA) by (apply (ext_addp T s1 Y HI1)).
+  assert (Hnr_sid : ~ reachP sA sid).
+  { intros H. apply (ext_reach T s1 sA HI1 HeA) in H. pose proof (reachP_lt s1 Hw1 sid H). unfold sid in *. lia. }
+  apply (MH_bind T _ _ sA (fun rid s3 => exists rs, s3 = setp sA sid (with_rels Y rs) /\ rel_facts Y rs rid rt_slide_layout (TInt lp))).
+  { apply (MH_relate_int T sA sid Y rt_slide_layout lp []); auto; try (intros; contradiction).
+    - cbn. apply ct_slide_ne_master.
+    - apply rt_slide_layout_ne_master.
+    - rewrite HlenA. pose proof (reachP_lt s1 Hw1 lp Hrl). unfold sid. lia. }
+  intros rid1 s3 HI3 (rsY & -> & FY). set (sB := setp sA sid (with_rels Y rsY)) in *.
+  assert (HrsY : int_targets rsY = [lp]).
+  { destruct FY as ([->|[-> _]] & (r & Hr' & _) & _); [cbn in Hr'; discriminate|]. reflexivity. }
+  assert (HeB : ext_unreach s1 sB) by (eapply ext_trans; [exact HI1|exact HeA|apply ext_setp_unreach; exact Hnr_sid]).
+  assert (HppB : getp sB (st_pres sB) = Some pp).
+  { change (st_pres sB) with (st_pres s1). unfold sB. rewrite getp_setp_other by (intros E; apply Hsid_np; rewrite E; reflexivity).
+    unfold sA, addp. rewrite getp_app_old; auto. eapply getp_lt; eauto. }
+  (* the relate on the presentation part and the append to the slide id list, as one replacement *)
+  pose proof (iv_parts T s1 HI1 _ pp Hpp) as Gpp.
+  destruct (get_or_add_cases rt_slide (TInt sid) (pt_rels pp)) as [(rid & r & E & Hin & _ & _ & Hg)|(rid & E & Hfr & _)].
+  { exfalso. assert (Hq : In sid (int_targets (pt_rels pp))) by (apply int_targets_In; eauto).
+    pose proof (gp_tgts _ _ Gpp sid Hq). unfold sid in *. lia. }
+  set (rs := pt_rels pp ++ [mkR rid rt_slide (TInt sid) None]) in *.
+  set (PP' := with_idl (with_rels pp rs) (pt_idl (with_rels pp rs) ++ [rid])).
+  assert (Hrun : fst ((do rid <- m_relate (st_pres s1) rt_slide (TInt sid) ;; do pp' <- m_part (st_pres s1) ;;
+                       m_setp (st_pres s1) (with_idl pp' (pt_idl pp' ++ [rid]))) sB) = setp sB (st_pres s1) PP').
+  { unfold bindM. rewrite (m_relate_run sB (st_pres s1) rt_slide (TInt sid) pp rs rid HppB E).
+    rewrite (m_part_run _ (st_pres s1) (with_rels pp rs)) by (apply getp_setp_same; eapply getp_lt; exact HppB).
+    cbn [fst m_setp bindM getS putS]. unfold m_setp, bindM, getS, putS. cbn. apply setp_setp. }
+  unfold MH. split; [|auto]. rewrite Hrun.
+  destruct (pres_not_class T s1 pp HI1 Hpp) as (C1 & C2 & C3).
+  pose proof (iv_parts T sB HI3 _ pp HppB) as GppB.
+  assert (A_good : good_part (length (st_parts sB)) PP').
+  { unfold PP'. apply good_set_idl; auto.
+    + apply good_add_rel; auto. intros q [= <-]. unfold sB. rewrite length_setp, HlenA. lia.
+    + cbn [pt_idl pt_rels with_rels]. intros r Hr. apply in_app_or in Hr as [Hr|[<-|[]]].
+      * unfold rs. rewrite map_app. apply in_or_app. left. apply (gp_refs _ _ Gpp (k_id, r)).
+        unfold all_refs. apply in_or_app. left. apply in_map. exact Hr.
+      * unfold rs. rewrite map_app. apply in_or_app. right. simpl. auto. }
+  assert (A_F : Forall2 (fun rid' q => related_part rid' (pt_rels PP') = Ok q) [rid] [sid]).
+  { constructor; [|constructor]. unfold PP'. cbn [pt_rels with_idl with_rels]. unfold related_part, rs.
+    rewrite find_rel_app_new by auto. reflexivity. }
+  assert (A_edges : forall q, In q (int_targets [mkR rid rt_slide (TInt sid) None]) -> reachP sB q \/ In q [sid]).
+  { intros q [<-|[]]. right. simpl. auto. }
+  assert (A_pN : ~ In (st_pres sB) [sid]).
+  { intros [E'|[]]. apply Hsid_np. rewrite E'. reflexivity. }
+  assert (HYB : getp sB sid = Some (with_rels Y rsY)) by (unfold sB; apply getp_setp_same; rewrite HlenA; lia).
+  assert (A_Ncl : forall n y q, In n [sid] -> getp sB n = Some y -> In q (int_targets (pt_rels y)) -> reachP sB q \/ In q [sid]).
+  { intros n y q [<-|[]] Hy Hq. rewrite HYB in Hy. injection Hy as <-.
+    cbn [pt_rels with_rels] in Hq. rewrite HrsY in Hq. destruct Hq as [<-|[]]. left. apply (ext_reach_back s1 sB HeB). exact Hrl. }
+  assert (A_Nok : forall n y, In n [sid] -> ~ reachP sB n -> getp sB n = Some y ->
+            new_ok T sB y /\ (baseURI (pt_name y) = s_slides_dir -> In n [sid]) /\
+            (pt_name y = n_notes_master -> type_filter rt_notes_master [mkR rid rt_slide (TInt sid) None] <> []) /\ pt_name y <> n_core).
+  { intros n y [<-|[]] _ Hy. rewrite HYB in Hy. injection Hy as <-.
+    change (pt_name (with_rels Y rsY)) with nm. change (pt_ct (with_rels Y rsY)) with ct_slide.
+    split; [|split; [|split]].
+    + constructor.
+      * change (pt_name (with_rels Y rsY)) with nm. intros Hin. apply Hnmf. eapply ext_names; eauto.
+      * change (pt_ct (with_rels Y rsY)) with ct_slide. apply (tk_bin T HT). apply ct_slide_new.
+    + intros _. simpl. auto.
+    + intros E'. exfalso. rewrite E' in Hdir. vm_compute in Hdir. discriminate.
+    + intros E'. rewrite E' in Hdir. vm_compute in Hdir. discriminate. }
+  assert (A_Nd : forall n m0 y z, In n [sid] -> In m0 [sid] -> n <> m0 -> ~ reachP sB n -> ~ reachP sB m0 ->
+            getp sB n = Some y -> getp sB m0 = Some z -> pt_name y <> pt_name z).
+  { intros n m0 y z [<-|[]] [<-|[]] Hne. contradiction. }
+  assert (HnameB : name_of (st_parts sB) sid = nm) by (rewrite (name_of_getp sB sid _ HYB); reflexivity).
+  assert (A_tgx : NoDup [sid] /\ forall q, In q [sid] -> ~ reachP sB q /\ baseURI (name_of (st_parts sB) q) = s_slides_dir).
+  { split; [repeat constructor; intros []|]. intros q [<-|[]]. split.
+    + intros H. apply (ext_reach T s1 sB HI1 HeB) in H. pose proof (reachP_lt s1 Hw1 sid H). unfold sid in *. lia.
+    + rewrite HnameB. exact Hdir. }
+  assert (A_names : st_slides sB = true -> forall j q, nth_error [sid] j = Some q ->
+            name_of (st_parts sB) q = Ids.slide_name (N.of_nat (length (pt_idl pp) + j) + 1)%N).
+  { intros _ j q Hj. destruct j as [|j]; [|destruct j; discriminate]. injection Hj as <-.
+    rewrite HnameB. unfold nm, Ids.next_slide_partname. f_equal. lia. }
+  assert (A_nm : forall p0, st_nm sB = Some p0 -> type_filter rt_notes_master [mkR rid rt_slide (TInt sid) None] = []).
+  { intros _ _. vm_compute. reflexivity. }
+  exact (inv_setp_pres T sB pp PP' [sid] [mkR rid rt_slide (TInt sid) None] [rid] [sid] HT HI3 HppB eq_refl eq_refl
+           A_good eq_refl eq_refl A_F A_edges A_pN A_Ncl A_Nok A_Nd A_tgx A_names A_nm eq_refl).
+Qed.
+
+(* ------------------------------------------------------------------------------ *)
+(** * Package.core_properties *)
+
+Lemma inv_with_core T s o : Inv T s -> Inv T (with_core s o).
+Proof. intros [H1 H2 H3 H4 H5 H6 H7 H8 H9 H10 H11]. constructor; auto. Qed.
+
+Lemma inv_with_nm T s p : Inv T s ->
+  (forall pp, getp s (st_pres s) = Some pp -> part_with_reltype rt_notes_master (pt_rels pp) = Ok p) ->
+  Inv T (with_nm s (Some p)).
+Proof.
+  intros [H1 H2 H3 H4 H5 H6 H7 H8 H9 H10 H11] Hp. constructor; auto.
+  destruct H11 as (F1 & F2 & F3). split; [exact F1|]. split; [exact F2|].
+  intros pp q Hpp [= <-]. apply Hp. exact Hpp.
+Qed.
+
+Lemma rt_core_ne_od : str_eqb rt_core rt_office_document = false. Proof. vm_compute. reflexivity. Qed.
+Lemma ct_core_new : In ct_core new_part_cts. Proof. simpl; tauto. Qed.
+
+Section PkgAdd.
+Variable T : tables.
+Variable s : state.
+Variables (y : part) (rid : str).
+Hypothesis HT : tables_ok T.
+Hypothesis HI : Inv T s.
+Hypothesis Hy : y = new_part n_core ct_core 0.
+Hypothesis Hfr : ~ In rid (map rr_id (st_prels s)).
+Hypothesis Hnone : type_filter rt_core (st_prels s) = [].
+
+Let cp := length (st_parts s).
+Let sA := addp s y.
+Let s' := with_prels sA (st_prels s ++ [mkR rid rt_core (TInt cp) None]).
+
+Lemma n_core_part_name : Opc.part_name n_core.
+Proof. apply Opc_proofs.part_nameb_sound. vm_compute. reflexivity. Qed.
+
+Lemma pk_goody : good_part (S (length (st_parts s))) y.
+Proof. rewrite Hy. apply good_new_part. apply n_core_part_name. Qed.
+
+Lemma pk_invA : Inv T sA.
+Proof. apply inv_append; auto; [apply pk_goody|rewrite Hy; reflexivity]. Qed.
+
+Lemma pk_getp q : getp s' q = getp sA q.
+Proof. reflexivity. Qed.
+
+Lemma pk_wfg : wfg s'.
+Proof.
+  split.
+  - intros q Hq. change (st_parts s') with (st_parts sA). change (st_prels s') with (st_prels s ++ [mkR rid rt_core (TInt cp) None]) in Hq.
+    rewrite int_targets_app in Hq. apply in_app_or in Hq as [Hq|Hq].
+    + apply (iv_ptgts T sA pk_invA). exact Hq.
+    + simpl in Hq. destruct Hq as [<-|[]]. unfold sA, addp. cbn. rewrite app_length. simpl. unfold cp. lia.
+  - intros a z q Hz Hq. change (st_parts s') with (st_parts sA). exact (gp_tgts _ _ (iv_parts T sA pk_invA a z Hz) q Hq).
+Qed.
+
+Lemma pk_reach q : reachP s' q -> reachP sA q \/ In q [cp].
+Proof.
+  apply (reach_frame sA s' (fun q => In q [cp])).
+  - intros r Hr. change (st_prels s') with (st_prels s ++ [mkR rid rt_core (TInt cp) None]) in Hr.
+    rewrite int_targets_app in Hr. apply in_app_or in Hr as [Hr|Hr].
+    + left. constructor. exact Hr.
+    + simpl in Hr. destruct Hr as [<-|[]]. right. simpl. auto.
+  - intros a z q0 Hz Hq [Ha|[<-|[]]].
+    + left. eapply rp1; eauto.
+    + rewrite pk_getp in Hz. unfold sA, cp in Hz. unfold addp in Hz. rewrite getp_app_new in Hz. injection Hz as <-.
+      rewrite Hy in Hq. destruct Hq.
+Qed.
+
+Lemma pk_old q z z' : reachP sA q -> getp sA q = Some z -> getp s' q = Some z' -> pt_name z' = pt_name z /\ pt_ct z' = pt_ct z.
+Proof. intros _ Hz Hz'. rewrite pk_getp, Hz in Hz'. injection Hz' as <-. auto. Qed.
+
+Lemma pk_not_in_core : ~ In n_core (iter_names sA).
+Proof.
+  intros H. apply (addp_names_in T s y n_core HT HI pk_goody) in H; [|rewrite Hy; reflexivity].
+  destruct (iv_fixed T s HI) as (_ & F2 & _). apply (F2 H). exact Hnone.
+Qed.
+
+Theorem inv_pkg_core : Inv T (with_core s' (Some cp)).
+Proof.
+  apply inv_with_core. pose proof pk_invA as HIA.
+  assert (HycA : getp sA cp = Some y) by (unfold sA, cp, addp; apply getp_app_new).
+  assert (HN : forall n z', In n [cp] -> ~ reachP sA n -> getp s' n = Some z' -> new_ok T sA z').
+  { intros n z' [<-|[]] _ Hz'. rewrite pk_getp, HycA in Hz'. injection Hz' as <-. constructor.
+    - rewrite Hy. cbn. apply pk_not_in_core.
+    - rewrite Hy. cbn. apply (tk_bin T HT). apply ct_core_new. }
+  assert (HNd : forall a b ya yb, In a [cp] -> In b [cp] -> a <> b -> ~ reachP sA a -> ~ reachP sA b ->
+                  getp s' a = Some ya -> getp s' b = Some yb -> pt_name ya <> pt_name yb).
+  { intros a b ya yb [<-|[]] [<-|[]] Hne. contradiction. }
+  constructor.
+  - intros p x Hx. apply (iv_parts T sA HIA p x Hx).
+  - apply (proj1 pk_wfg).
+  - change (st_prels s') with (st_prels s ++ [mkR rid rt_core (TInt cp) None]). rewrite map_app. simpl.
+    apply Ids_proofs.NoDup_snoc; [apply (iv_pkeys T s HI)|exact Hfr].
+  - intros r Hr. change (st_prels s') with (st_prels s ++ [mkR rid rt_core (TInt cp) None]) in Hr.
+    apply in_app_or in Hr as [Hr|[<-|[]]]; [apply (iv_pnocache T s HI r Hr)|reflexivity].
+  - apply (tr_names T sA s' [cp] HIA pk_wfg pk_reach pk_old HN HNd).
+  - destruct (iv_main T s HI) as (r & Hf & Ht). exists r. split; auto.
+    change (st_prels s') with (st_prels s ++ [mkR rid rt_core (TInt cp) None]). rewrite filter_app, Hf.
+    cbn [filter rr_type]. rewrite rt_core_ne_od. reflexivity.
+  - apply (iv_pres T sA HIA).
+  - apply (tr_clash T sA s' [cp] HT HIA pk_wfg pk_reach pk_old HN).
+  - destruct (iv_slides T sA HIA) as (pp & tg & Hpp & HF & Hnd & Hdir & Hall & Hnm').
+    exists pp, tg. split; auto. split; auto. split; auto. split; auto. split; auto.
+    apply (tr_dir T sA s' [cp] HIA pk_wfg pk_reach pk_old tg tg); auto; [apply incl_refl|].
+    intros n z' [<-|[]] _ Hz' Hd. exfalso. rewrite pk_getp, HycA in Hz'. injection Hz' as <-.
+    rewrite Hy in Hd. vm_compute in Hd. discriminate.
+  - apply (iv_master T sA HIA).
+  - destruct (iv_fixed T sA HIA) as (F1 & F2 & F3). split; [|split].
+    + intros pp Hpp H. apply (F1 pp Hpp).
+      destruct (tr_name_in T sA s' [cp] HIA pk_wfg pk_reach pk_old _ H) as [|(n & z' & [<-|[]] & _ & Hz' & E)]; auto.
+      exfalso. rewrite pk_getp, HycA in Hz'. injection Hz' as <-. rewrite Hy in E. vm_compute in E. discriminate.
+    + intros _. change (st_prels s') with (st_prels s ++ [mkR rid rt_core (TInt cp) None]).
+      rewrite filter_app. cbn [filter rr_type]. rewrite str_eqb_refl. intros E. apply app_eq_nil in E as [_ E]. discriminate.
+    + exact F3.
+Qed.
+End PkgAdd.
+
+Lemma part_with_reltype_err t rs e : part_with_reltype t rs = Err e -> e <> ValueErr -> type_filter t rs = [].
+Proof.
+  unfold part_with_reltype, type_filter. destruct (filter _ rs) as [|r [|r' l]]; auto.
+  - destruct (rr_tgt r); [discriminate|]. intros [= <-] H. contradiction.
+  - intros [= <-] H. contradiction.
+Qed.
+
+Lemma step_core T s : tables_ok T -> Inv T s -> Inv T (fst (step false T s AccessCoreProps)).
+Proof.
+  intros HT HI. cbn [step]. rewrite fst_fin. unfold m_core, bindM, getS.
+  destruct (st_core s) as [c|]; [exact HI|].
+  destruct (part_with_reltype rt_core (st_prels s)) as [p|e] eqn:Ep.
+  - cbn. apply inv_with_core. exact HI.
+  - destruct e; try exact HI;
+      (pose proof (part_with_reltype_err _ _ _ Ep ltac:(discriminate)) as Hnone;
+       rewrite m_new_run; cbn [fst snd]; unfold lift;
+       destruct (get_or_add_cases rt_core (TInt (length (st_parts s))) (st_prels s)) as [(rid & r & E & Hin & _ & Ht & _)|(rid & E & Hfr & _)];
+       [exfalso; assert (Hf : In r (type_filter rt_core (st_prels s))) by (apply filter_In; split; auto; rewrite Ht; apply str_eqb_refl);
+        rewrite Hnone in Hf; destruct Hf
+       |change (st_prels (addp s (new_part n_core ct_core 0))) with (st_prels s); rewrite E; cbn [fst snd putS];
+        apply (inv_pkg_core T s _ rid HT HI eq_refl Hfr Hnone)]).
+Qed.
+
+(* ------------------------------------------------------------------------------ *)
+(** * SlideLayouts.remove *)
+
+Lemma pure_layout_of sp : pureM (m_layout_of sp).
+Proof.
+  unfold m_layout_of. apply pure_bind; [apply pure_part|]. intros x. apply pure_bind; [apply pure_lift|]. intros l.
+  apply pure_bind; [apply pure_class|]. intros _. apply pure_ret.
+Qed.
+
+Lemma pure_used lp sl : pureM (m_used lp sl).
+Proof.
+  induction sl as [|rid r IH]; simpl; [apply pure_ret|].
+  apply pure_bind; [apply pure_getS|]. intros s0. apply pure_bind; [apply pure_part|]. intros pp.
+  apply pure_bind; [apply pure_lift|]. intros sp. apply pure_bind; [apply pure_class|]. intros _.
+  apply pure_bind; [apply pure_layout_of|]. intros l. apply pure_bind; [exact IH|]. intros rest. apply pure_ret.
+Qed.
+
+Lemma MH_pure {A} T (m : M A) s : pureM m -> Inv T s -> MH T m s (fun _ s1 => s1 = s).
+Proof. intros Hp HI. unfold MH. rewrite (Hp s). split; auto. Qed.
+
+Lemma remove_nth_In {A} (l : list A) i x : In x (Ids.remove_nth i l) -> In x l.
+Proof. apply Ids_proofs.remove_nth_incl. Qed.
+
+Lemma remove_nth_NoDup {A} (l : list A) : forall i, NoDup l -> NoDup (Ids.remove_nth i l).
+Proof.
+  induction l as [|a l IH]; intros [|i] H; simpl; auto; inversion H; subst; auto.
+  constructor; auto. intros Hin. apply H2. eapply remove_nth_In; eauto.
+Qed.
+
+Lemma remove_nth_not_In {A} (l : list A) : forall i x, NoDup l -> nth_error l i = Some x -> ~ In x (Ids.remove_nth i l).
+Proof.
+  induction l as [|a l IH]; intros [|i] x H Hn; simpl in *; try discriminate; inversion H; subst.
+  - injection Hn as <-. exact H2.
+  - intros [->|Hin]; [apply H2; eapply nth_error_In; eauto|eapply IH; eauto].
+Qed.
+
+Lemma ct_layout_ne_master : ct_slide_layout <> ct_slide_master. Proof. vm_compute; discriminate. Qed.
+Lemma ct_master_ne_slide : ct_slide_master <> ct_slide. Proof. vm_compute; discriminate. Qed.
+Lemma ct_master_ne_notes : ct_slide_master <> ct_notes_slide. Proof. vm_compute; discriminate. Qed.
+
+(** a master with one entry of its layout id list taken out *)
+Lemma good_master_remove n x i : good_part n x -> pt_ct x = ct_slide_master ->
+  good_part n (with_idl x (Ids.remove_nth i (pt_idl x))).
+Proof.
+  intros [H1 H2 H3 H4 H5 H6 H7 H8 H9 H10] Hm. destruct (H10 Hm) as (M1 & M2 & M3).
+  assert (Hall : forall kr, In kr (all_refs (with_idl x (Ids.remove_nth i (pt_idl x)))) -> In kr (all_refs x)).
+  { intros kr. unfold all_refs. cbn [pt_idl pt_refs pt_slots with_idl]. intros Hin.
+    apply in_app_or in Hin as [Hin|Hin]; [|apply in_or_app; right; exact Hin].
+    apply in_map_iff in Hin as (r & <- & Hr). apply in_or_app. left. apply in_map. eapply remove_nth_In; eauto. }
+  constructor; cbn [pt_name pt_base pt_rels pt_ct pt_idl pt_refs pt_slots with_idl]; auto.
+  - intros k r x' Hkr. apply H7. apply Hall. exact Hkr.
+  - intros [E|E]; rewrite Hm in E; [exfalso; apply ct_master_ne_slide; exact E|exfalso; apply ct_master_ne_notes; exact E].
+  - intros _. split; [apply remove_nth_NoDup; exact M1|]. split.
+    + intros kr Hkr Hin. apply (M2 kr Hkr). eapply remove_nth_In; eauto.
+    + intros r x' Hr. apply M3. eapply remove_nth_In; eauto.
+Qed.
+
+(** a relationship nothing in the XML names goes *)
+Lemma good_drop_unreferenced n x rid : good_part n x -> (forall k, ~ In (k, rid) (all_refs x)) ->
+  good_part n (with_rels x (filter (fun r => negb (str_eqb (rr_id r) rid)) (pt_rels x))).
+Proof.
+  intros [H1 H2 H3 H4 H5 H6 H7 H8 H9 H10] Hnone.
+  assert (Hne : forall k r, In (k, r) (all_refs x) -> r <> rid) by (intros k r Hin ->; exact (Hnone k Hin)).
+  constructor; cbn [pt_name pt_base pt_rels pt_ct pt_idl pt_refs pt_slots with_rels]; auto.
+  - intros q Hq. apply H3. apply int_targets_In in Hq as (r & Hr & Et). apply filter_In in Hr as [Hr _].
+    apply int_targets_In. eauto.
+  - clear - H4. induction (pt_rels x) as [|a rs IH]; simpl; [constructor|]. simpl in H4. inversion H4; subst.
+    destruct (negb (str_eqb (rr_id a) rid)); simpl; auto. constructor; auto.
+    intros Hin. apply H1. apply in_map_iff in Hin as (r & E & Hr). apply filter_In in Hr as [Hr _].
+    rewrite <- E. apply in_map. exact Hr.
+  - intros r Hr. apply filter_In in Hr as [Hr _]. auto.
+  - intros [k r] Hkr. cbn [snd]. pose proof (H6 _ Hkr) as Hk. cbn [snd] in Hk.
+    apply in_map_iff in Hk as (r' & Er & Hr'). apply in_map_iff. exists r'. split; auto. apply filter_In. split; auto.
+    apply negb_true_iff. apply Opc_proofs.str_eqb_neq. rewrite Er. eapply Hne; eauto.
+  - intros k r x' Hkr Hk Hf. rewrite find_rel_filter in Hf by (eapply Hne; eauto). eapply H7; eauto.
+  - intros r Hr. rewrite find_rel_filter; [apply H8; exact Hr|].
+    unfold slot_rids in Hr. apply in_map_iff in Hr as ([k0 r0] & Er & Hr). cbn [snd] in Er. subst r0.
+    apply (Hne k0). unfold all_refs. apply in_or_app. right. apply in_or_app. right. exact Hr.
+  - intros Hm. destruct (H10 Hm) as (M1 & M2 & M3). split; auto. split; auto.
+    intros r x' Hr Hf. destruct (Opc_proofs.str_eq_dec r rid) as [->|Hner].
+    + exfalso. apply (Hnone k_id). unfold all_refs. apply in_or_app. left. apply in_map. exact Hr.
+    + rewrite find_rel_filter in Hf by exact Hner. eapply M3; eauto.
+Qed.
+
+Lemma find_rel_filter_same rid rs : find_rel rid (filter (fun a => negb (str_eqb (rr_id a) rid)) rs) = None.
+Proof.
+  induction rs as [|a rs IH]; simpl; auto. destruct (str_eqb_spec (rr_id a) rid) as [E|E]; simpl; auto.
+  destruct (str_eqb_spec (rr_id a) rid); [contradiction|exact IH].
+Qed.
+
+Lemma type_filter_drop t rid rs : NoDup (map rr_id rs) -> (forall r, find_rel rid rs = Some r -> rr_type r <> t) ->
+  type_filter t (filter (fun a => negb (str_eqb (rr_id a) rid)) rs) = type_filter t rs.
+Proof.
+  intros Hnd Hty.
+  assert (H : forall a, In a rs -> rr_id a = rid -> str_eqb (rr_type a) t = false).
+  { intros a Ha Ea. apply Opc_proofs.str_eqb_neq. apply Hty. rewrite <- Ea. apply find_rel_NoDup; auto. }
+  clear Hty Hnd. unfold type_filter. induction rs as [|a rs IH]; simpl; auto.
+  destruct (str_eqb_spec (rr_id a) rid) as [E|E]; simpl.
+  - rewrite (H a (or_introl eq_refl) E). apply IH. intros b Hb. apply H. right; auto.
+  - destruct (str_eqb (rr_type a) t); [f_equal|]; apply IH; intros b Hb; apply H; right; auto.
+Qed.
+
+Lemma step_remove_layout T s l : tables_ok T -> Inv T s -> Inv T (fst (step false T s (RemoveLayout l))).
+Proof.
+  intros HT HI. cbn [step]. rewrite fst_fin. eapply MH_true. unfold m_remove_layout.
+  apply (MH_bind T _ _ s _ (fun _ _ => True) (MH_layout T s l HI)). intros [[m lp] rid] s0 _ [-> Hlay].
+  destruct (layout_facts s l m lp rid Hlay) as (pp & mrid & mp & lx & Hpp & Hmr & Hm & Hmp & Ecm & Hnth & Hlp & Hlx & Ecl).
+  destruct (access_inv T s HT HI) as (s1 & E & HI1 & Hs1 & Hp1 & Hmr1 & Hlen1 & Hfwd).
+  apply (MH_bind T _ _ s (fun _ s' => s' = s1)). { unfold MH. rewrite E. cbn. split; auto. }
+  intros [] s' _ ->.
+  apply (MH_bind T _ _ s1 (fun a s2 => a = s1 /\ s2 = s1)); [apply MH_getS; auto|]. intros a s2 _ [-> ->].
+  apply (MH_bind T _ _ s1 (fun _ s2 => s2 = s1)); [apply MH_part_any; auto|]. intros pp1 s2 _ ->.
+  apply (MH_bind T _ _ s1 _ _ (MH_pure T _ s1 (pure_used lp (pt_idl pp1)) HI1)). intros used s2 _ ->.
+  destruct used; [apply MH_fail; auto|].
+  destruct (Hfwd m mp Hmp) as (nm1 & Hmp1). set (mp1 := with_name mp nm1) in *.
+  destruct (Hfwd lp lx Hlx) as (nl1 & Hlx1). set (lx1 := with_name lx nl1) in *.
+  assert (Hmnp : m <> st_pres s1) by (apply (class_not_pres T s1 m mp1 ct_slide_master HI1 Hmp1 Ecm); simpl; tauto).
+  assert (Hlm : lp <> m).
+  { intros ->. rewrite Hmp1 in Hlx1. assert (Heq : mp1 = lx1) by congruence.
+    assert (H : pt_ct mp1 = pt_ct lx1) by (rewrite Heq; reflexivity).
+    unfold mp1, lx1 in H. cbn [pt_ct with_name] in H. rewrite Ecm, Ecl in H. apply ct_layout_ne_master. auto. }
+  pose proof (iv_parts T s1 HI1 m mp1 Hmp1) as Gm. destruct (gp_master _ _ Gm Ecm) as (M1 & M2 & M3).
+  apply (MH_bind T _ _ s1 (fun y s2 => y = mp1 /\ s2 = s1)); [apply (MH_part T s1 m mp1); auto|]. intros y s2 _ [-> ->].
+  set (MP2 := with_idl mp1 (remove_nth_str l (pt_idl mp1))).
+  assert (HI2 : Inv T (setp s1 m MP2)).
+  { apply (inv_setp_gen T s1 m mp1 MP2 []); auto; try (intros; contradiction); try (intros q Hq; left; exact Hq).
+    - apply good_master_remove; auto.
+    - intros _ rid' lp' Hr Hl. split; [unfold MP2 in Hr; cbn [pt_idl with_idl] in Hr; eapply remove_nth_In; exact Hr|exact Hl]. }
+  apply (MH_bind T _ _ s1 (fun _ s2 => s2 = setp s1 m MP2)); [apply MH_setp; auto|]. intros [] s2 _ ->.
+  set (s2 := setp s1 m MP2) in *.
+  assert (Hlx2 : getp s2 lp = Some lx1) by (unfold s2; rewrite getp_setp_other; auto).
+  apply (MH_bind T _ _ s2 (fun y s3 => y = lx1 /\ s3 = s2)); [apply (MH_part T s2 lp lx1); auto|]. intros y s3 _ [-> ->].
+  destruct (part_with_reltype rt_slide_master (pt_rels lx1)) as [m'|e] eqn:Epw.
+  2:{ apply (MH_bind T _ _ s2 (fun _ _ => False)); [apply MH_lift; auto; discriminate|intros ? ? _ []]. }
+  assert (Hm' : m' = m).
+  { apply (iv_master T s1 HI1 m mp1 rid lp lx1 m' Hmp1 Ecm); auto. eapply nth_error_In; eauto. }
+  subst m'.
+  apply (MH_bind T _ _ s2 (fun y s3 => y = m /\ s3 = s2)); [apply MH_lift; auto; intros y [= <-]; auto|]. intros y s3 _ [-> ->].
+  apply (MH_bind T _ _ s2 (fun _ s3 => s3 = s2)); [apply MH_class; auto|]. intros [] s3 _ ->.
+  assert (Hm2 : getp s2 m = Some MP2) by (unfold s2; apply getp_setp_same; eapply getp_lt; eauto).
+  apply (MH_bind T _ _ s2 (fun y s3 => y = MP2 /\ s3 = s2)); [apply (MH_part T s2 m MP2); auto|]. intros y s3 _ [-> ->].
+  destruct (drop_rel MP2 rid) as [MP3|e] eqn:Ed.
+  2:{ apply (MH_bind T _ _ s2 (fun _ _ => False)); [apply MH_lift; auto; discriminate|intros ? ? _ []]. }
+  apply (MH_bind T _ _ s2 (fun y s3 => y = MP3 /\ s3 = s2)); [apply MH_lift; auto; intros y [= <-]; auto|]. intros y s3 _ [-> ->].
+  apply MH_setp; auto.
+  apply drop_rel_spec in Ed as [[_ ->]|(_ & Hkey & ->)].
+  { unfold s2. rewrite setp_setp. exact HI2. }
+  pose proof (iv_parts T s2 HI2 m MP2 Hm2) as G2.
+  assert (Hnone : forall k, ~ In (k, rid) (all_refs MP2)).
+  { intros k Hin. unfold all_refs, MP2 in Hin. cbn [pt_idl pt_refs pt_slots with_idl] in Hin.
+    apply in_app_or in Hin as [Hin|Hin].
+    - apply in_map_iff in Hin as (r & [= _ ->] & Hr). revert Hr. apply remove_nth_not_In; auto.
+    - apply (M2 (k, rid) Hin). cbn [snd]. eapply nth_error_In; eauto. }
+  apply (inv_setp_gen T s2 m MP2 _ []); auto; try (intros; contradiction).
+  - apply good_drop_unreferenced; auto.
+  - intros _ rid' lp' Hr Hl. split; auto. cbn [pt_rels with_rels] in Hl. unfold related_part in *.
+    destruct (Opc_proofs.str_eq_dec rid' rid) as [->|Hne]; [rewrite find_rel_filter_same in Hl; discriminate|].
+    rewrite find_rel_filter in Hl by exact Hne. exact Hl.
+  - cbn [pt_rels with_rels]. apply type_filter_drop; [apply (gp_keys _ _ G2)|].
+    intros r Hf. apply (M3 rid r); [eapply nth_error_In; eauto|exact Hf].
+  - intros q Hq. left. cbn [pt_rels with_rels] in Hq. apply int_targets_In in Hq as (r & Hr & Et).
+    apply filter_In in Hr as [Hr _]. apply int_targets_In. eauto.
+Qed.
+
+(* ------------------------------------------------------------------------------ *)
+(** * Notes master and notes slides *)
+
+Lemma part_with_reltype_target t rs p : part_with_reltype t rs = Ok p -> In p (int_targets rs).
+Proof.
+  unfold part_with_reltype. destruct (filter _ rs) as [|r [|r' l]] eqn:E; try discriminate.
+  destruct (rr_tgt r) eqn:Et; [|discriminate]. intros [= <-].
+  assert (Hin : In r (filter (fun r0 => str_eqb (rr_type r0) t) rs)) by (rewrite E; simpl; auto).
+  apply filter_In in Hin as [Hin _]. apply int_targets_In. eauto.
+Qed.
+
+Lemma reachP_with_nm s o p : reachP s p -> reachP (with_nm s o) p.
+Proof.
+  induction 1 as [q Hq|a q x Ha IH Hx Hq]; [apply rp0; exact Hq|apply (rp1 _ a q x); [exact IH|exact Hx|exact Hq]].
+Qed.
+
+(** what the creation of the notes master leaves alone *)
+Definition nm_post (s : state) (nm : nat) (s1 : state) : Prop :=
+  st_pres s1 = st_pres s /\ st_slides s1 = st_slides s /\ length (st_parts s) <= length (st_parts s1) /\
+  (forall q, q <> st_pres s -> q < length (st_parts s) -> getp s1 q = getp s q) /\
+  (forall sp, listed s sp -> listed s1 sp) /\ reachP s1 nm.
+
+Lemma n_nm_part_name : Opc.part_name n_notes_master.
+Proof. apply Opc_proofs.part_nameb_sound. vm_compute. reflexivity. Qed.
+
+Lemma tp_theme_known : In tp_theme known_tps. Proof. simpl; tauto. Qed.
+Lemma ct_theme_new : In ct_theme new_part_cts. Proof. simpl; tauto. Qed.
+Lemma ct_nm_new : In ct_notes_master new_part_cts. Proof. simpl; tauto. Qed.
+Lemma rt_theme_ne_master : rt_theme <> rt_slide_master. Proof. vm_compute; discriminate. Qed.
+Lemma ct_nm_ne_master : ct_notes_master <> ct_slide_master. Proof. vm_compute; discriminate. Qed.
+
+Lemma theme_name_dir k : baseURI (Ids.tmpl_apply (fst tp_theme) (snd tp_theme) k) = asc "/ppt/theme".
+Proof.
+  change (fst tp_theme) with (render ([asc "ppt"; asc "theme"] ++ [asc "theme"])).
+  destruct (tmpl_name_facts [asc "ppt"; asc "theme"] (asc "theme") (snd tp_theme) k) as [_ B];
+    [repeat constructor|discriminate|vm_compute; discriminate|reflexivity|reflexivity|exact B].
+Qed.
+
+Lemma MH_notes_master T s : tables_ok T -> Inv T s -> MH T m_notes_master s (fun nm s1 => nm_post s nm s1).
+Proof.
+  intros HT HI. pose proof (inv_wfg T s HI) as Hw. unfold m_notes_master.
+  destruct (iv_pres T s HI) as (pp & Hpp & Hcls). destruct (iv_fixed T s HI) as (F1 & F2 & F3).
+  assert (Hself : forall p, reachP s p -> nm_post s p s).
+  { intros p Hp. split; [reflexivity|]. split; [reflexivity|]. split; [lia|]. split; [intros q _ _; reflexivity|]. split; auto. }
+  apply (MH_bind T _ _ s (fun a s1 => a = s /\ s1 = s)); [apply MH_getS; auto|]. intros a s1 _ [-> ->].
+  destruct (st_nm s) as [p|] eqn:Enm.
+  { apply MH_ret; auto. apply Hself. eapply rp1; [apply (pres_reach T s HI)|exact Hpp|].
+    eapply part_with_reltype_target. apply (F3 pp p Hpp eq_refl). }
+  apply (MH_bind T _ _ s (fun a s1 => a = pp /\ s1 = s)); [apply (MH_part T s _ pp); auto|]. intros a s1 _ [-> ->].
+  destruct (part_with_reltype rt_notes_master (pt_rels pp)) as [p|e] eqn:Epw.
+  { apply (MH_bind T _ _ s (fun a s1 => a = s /\ s1 = s)); [apply MH_getS; auto|]. intros a s1 _ [-> ->].
+    assert (HI' : Inv T (with_nm s (Some p))).
+    { apply inv_with_nm; auto. intros pp0 Hpp0. rewrite Hpp in Hpp0. injection Hpp0 as <-. exact Epw. }
+    apply (MH_bind T _ _ s (fun _ s1 => s1 = with_nm s (Some p))).
+    { unfold MH, putS. cbn. split; auto. }
+    intros [] s1 _ ->. apply MH_ret; auto.
+    assert (Hr : reachP s p) by (eapply rp1; [apply (pres_reach T s HI)|exact Hpp|eapply part_with_reltype_target; eauto]).
+    split; [reflexivity|]. split; [reflexivity|]. split; [cbn; lia|]. split; [intros q _ _; reflexivity|].
+    split; [intros sp (pp0 & rid & H1 & H2); exists pp0, rid; auto|].
+    apply reachP_with_nm. exact Hr. }
+  destruct e; try (apply MH_fail; exact HI);
+  (* the creating branch, the same for every other error class *)
+  ( assert (Hnone : type_filter rt_notes_master (pt_rels pp) = []) by (apply (part_with_reltype_err _ _ _ Epw); discriminate);
+    assert (Hnmf : ~ In n_notes_master (iter_names s)) by (intros H; apply (F1 pp Hpp H); exact Hnone);
+    set (NM := new_part n_notes_master ct_notes_master 0);
+    set (nm := length (st_parts s));
+    apply (MH_bind T _ _ s (fun a s2 => a = nm /\ s2 = addp s NM));
+    [ apply MH_new; [exact HT|exact HI|apply good_new_part; apply n_nm_part_name|reflexivity|split; reflexivity] | ];
+    intros a s2 HI2 [-> ->]; set (sA := addp s NM) in *;
+    apply (MH_bind T _ _ sA _ _ (MH_next_partname T sA tp_theme HI2 tp_theme_known)); intros tnm s3 _ (-> & Hft & kt & ->);
+    set (TH := new_part (Ids.tmpl_apply (fst tp_theme) (snd tp_theme) kt) ct_theme 0);
+    pose proof (tmpl_leaf T sA tp_theme kt ct_theme 0 HT HI2 tp_theme_known ct_theme_new Hft) as Hlt; fold TH in Hlt;
+    set (th := length (st_parts sA));
+    apply (MH_bind T _ _ sA (fun a s3 => a = th /\ s3 = addp sA TH));
+    [ apply MH_new; [exact HT|exact HI2|apply (lf_good _ _ _ Hlt)|reflexivity|split; reflexivity] | ];
+    intros a s3 HI3 [-> ->]; set (sB := addp sA TH) in * ).
+  all: assert (HlenA : length (st_parts sA) = S nm) by (unfold sA, addp; cbn [st_parts with_parts]; rewrite app_length; simpl; unfold nm; lia).
+  all: assert (HlenB : length (st_parts sB) = S (S nm)) by (unfold sB, addp; cbn [st_parts with_parts]; rewrite app_length, HlenA; simpl; lia).
+  all: assert (HeA : ext_unreach s sA) by (apply (ext_addp T s NM HI)).
+  all: assert (HeB : ext_unreach s sB) by (eapply ext_trans; [exact HI|exact HeA|apply (ext_addp T sA TH HI2)]).
+  all: assert (Hnr_nm : ~ reachP sB nm) by (intros H; apply (ext_reach T s sB HI HeB) in H; pose proof (reachP_lt s Hw nm H); unfold nm in *; lia).
+  all: assert (HNMB : getp sB nm = Some NM) by (unfold sB, addp; rewrite getp_app_old by (rewrite HlenA; lia); apply getp_app_new).
+  all: assert (Hnm_np : nm <> st_pres sB) by (cbn; pose proof (getp_lt s _ pp Hpp); unfold nm; lia).
+  all: apply (MH_bind T _ _ sB (fun rid s4 => exists rs, s4 = setp sB nm (with_rels NM rs) /\ rel_facts NM rs rid rt_theme (TInt th)));
+    [ apply (MH_relate_int T sB nm NM rt_theme th []); auto; try (intros; contradiction);
+      [ cbn; apply ct_nm_ne_master | apply rt_theme_ne_master | rewrite HlenB; unfold th; rewrite HlenA; lia ] | ].
+  all: intros rid1 s4 HI4 (rsn & -> & Fn); set (sC := setp sB nm (with_rels NM rsn)) in *.
+  all: assert (Hrsn : int_targets rsn = [th]) by
+         (destruct Fn as ([->|[-> _]] & (r & Hr' & _) & _); [cbn in Hr'; discriminate|reflexivity]).
+  all: assert (HeC : ext_unreach s sC) by (eapply ext_trans; [exact HI|exact HeB|apply ext_setp_unreach; exact Hnr_nm]).
+  all: assert (HeAC : ext_unreach sA sC) by (eapply ext_trans; [exact HI2|apply (ext_addp T sA TH HI2)|apply ext_setp_unreach; exact Hnr_nm]).
+  all: assert (HppC : getp sC (st_pres sC) = Some pp) by
+         (change (st_pres sC) with (st_pres s); unfold sC; rewrite getp_setp_other by (intros E'; apply Hnm_np; rewrite E'; reflexivity);
+          unfold sB, addp; rewrite getp_app_old by (rewrite HlenA; pose proof (getp_lt s _ pp Hpp); unfold nm; lia);
+          unfold sA, addp; rewrite getp_app_old; auto; eapply getp_lt; eauto).
+  all: assert (HNMC : getp sC nm = Some (with_rels NM rsn)) by (unfold sC; apply getp_setp_same; rewrite HlenB; lia).
+  all: assert (HTHC : getp sC th = Some TH) by
+         (unfold sC; rewrite getp_setp_other by (unfold th; rewrite HlenA; lia); unfold sB, addp; unfold th; apply getp_app_new).
+  all: pose proof (iv_parts T s HI _ pp Hpp) as Gpp.
+  all: destruct (pres_not_class T s pp HI Hpp) as (C1 & C2 & C3).
+  all: destruct (get_or_add_cases rt_notes_master (TInt nm) (pt_rels pp)) as [(rid & r & E & Hin & _ & Ht & _)|(rid & E & Hfr & _)];
+    [ exfalso; assert (Hf : In r (type_filter rt_notes_master (pt_rels pp))) by (apply filter_In; split; auto; rewrite Ht; apply str_eqb_refl);
+      rewrite Hnone in Hf; destruct Hf | ].
+  all: set (PP' := with_rels pp (pt_rels pp ++ [mkR rid rt_notes_master (TInt nm) None])).
+  all: assert (HIP : Inv T (setp sC (st_pres sC) PP')).
+  all: try (
+    assert (A_good : good_part (length (st_parts sC)) PP') by
+      (unfold PP'; apply good_add_rel; auto;
+       [apply (iv_parts T sC HI4 _ pp HppC)|intros q [= <-]; unfold sC; rewrite length_setp, HlenB; lia]);
+    assert (A_edges : forall q, In q (int_targets [mkR rid rt_notes_master (TInt nm) None]) -> reachP sC q \/ In q [nm; th])
+      by (intros q [<-|[]]; right; simpl; auto);
+    assert (A_pN : ~ In (st_pres sC) [nm; th]) by
+      (intros [E'|[E'|[]]]; [apply Hnm_np; rewrite E'; reflexivity|pose proof (getp_lt s _ pp Hpp) as Hl; change (st_pres sC) with (st_pres s) in E'; unfold th in E'; rewrite HlenA in E'; unfold nm in E'; lia]);
+    assert (A_Ncl : forall n y q, In n [nm; th] -> getp sC n = Some y -> In q (int_targets (pt_rels y)) -> reachP sC q \/ In q [nm; th])
+      by (intros n y q [<-|[<-|[]]] Hy Hq;
+          [rewrite HNMC in Hy; injection Hy as <-; cbn [pt_rels with_rels] in Hq; rewrite Hrsn in Hq; destruct Hq as [<-|[]]; right; simpl; auto
+          |rewrite HTHC in Hy; injection Hy as <-; destruct Hq]);
+    assert (A_Nok : forall n y, In n [nm; th] -> ~ reachP sC n -> getp sC n = Some y ->
+              new_ok T sC y /\ (baseURI (pt_name y) = s_slides_dir -> In n []) /\
+              (pt_name y = n_notes_master -> type_filter rt_notes_master [mkR rid rt_notes_master (TInt nm) None] <> []) /\ pt_name y <> n_core)
+      by (intros n y [<-|[<-|[]]] _ Hy;
+          [ rewrite HNMC in Hy; injection Hy as <-; change (pt_name (with_rels NM rsn)) with n_notes_master; change (pt_ct (with_rels NM rsn)) with ct_notes_master;
+            split; [constructor; [change (pt_name (with_rels NM rsn)) with n_notes_master; intros Hin; apply Hnmf; eapply ext_names; eauto
+                                  |change (pt_ct (with_rels NM rsn)) with ct_notes_master; apply (tk_bin T HT); apply ct_nm_new]|];
+            split; [intros E'; vm_compute in E'; discriminate|]; split; [intros _; vm_compute; discriminate|vm_compute; discriminate]
+          | rewrite HTHC in Hy; injection Hy as <-;
+            destruct (leaf_new_ok T sA sC TH HI2 HI4 HeAC Hlt) as (Hn1 & Hn2 & Hn3 & Hn4);
+            split; [exact Hn1|]; split; [intros E'; contradiction|]; split; [intros E'; contradiction|exact Hn4] ]);
+    assert (A_Nd : forall n m0 y z, In n [nm; th] -> In m0 [nm; th] -> n <> m0 -> ~ reachP sC n -> ~ reachP sC m0 ->
+              getp sC n = Some y -> getp sC m0 = Some z -> pt_name y <> pt_name z)
+      by (assert (Hdiff : n_notes_master <> pt_name TH) by
+            (intros E'; pose proof (theme_name_dir kt) as B; change (pt_name TH) with (Ids.tmpl_apply (fst tp_theme) (snd tp_theme) kt) in E';
+             rewrite <- E' in B; vm_compute in B; discriminate);
+          intros n m0 y z [<-|[<-|[]]] [<-|[<-|[]]] Hne _ _ Hy Hz; try contradiction;
+          [rewrite HNMC in Hy; rewrite HTHC in Hz; injection Hy as <-; injection Hz as <-; exact Hdiff
+          |rewrite HTHC in Hy; rewrite HNMC in Hz; injection Hy as <-; injection Hz as <-; intros E'; apply Hdiff; symmetry; exact E']);
+    assert (A_tgx : NoDup (@nil nat) /\ forall q, In q (@nil nat) -> ~ reachP sC q /\ baseURI (name_of (st_parts sC) q) = s_slides_dir)
+      by (split; [constructor|intros q []]);
+    assert (A_names : st_slides sC = true -> forall j q, nth_error (@nil nat) j = Some q ->
+              name_of (st_parts sC) q = Ids.slide_name (N.of_nat (length (pt_idl pp) + j) + 1)%N)
+      by (intros _ [|j] q Hj; discriminate);
+    assert (A_nm : forall p0, st_nm sC = Some p0 -> type_filter rt_notes_master [mkR rid rt_notes_master (TInt nm) None] = [])
+      by (intros p0 Hp0; change (st_nm sC) with (st_nm s) in Hp0; rewrite Enm in Hp0; discriminate);
+    assert (A_idl : pt_idl PP' = pt_idl pp ++ []) by (rewrite app_nil_r; reflexivity);
+    exact (inv_setp_pres T sC pp PP' [nm; th] [mkR rid rt_notes_master (TInt nm) None] [] [] HT HI4 HppC eq_refl eq_refl
+             A_good eq_refl A_idl (Forall2_nil _) A_edges A_pN A_Ncl A_Nok A_Nd A_tgx A_names A_nm eq_refl) ).
+  all: apply (MH_bind T _ _ sC (fun _ s5 => s5 = setp sC (st_pres sC) PP'));
+    [ unfold MH; rewrite (m_relate_run sC (st_pres s) rt_notes_master (TInt nm) pp _ rid HppC E); cbn; split; auto | ].
+  all: intros rid2 s5 _ ->; set (sD := setp sC (st_pres sC) PP') in *.
+  all: apply (MH_bind T _ _ sD (fun a s6 => a = sD /\ s6 = sD)); [apply MH_getS; auto|]; intros a s6 _ [-> ->].
+  all: assert (HPD : getp sD (st_pres sD) = Some PP') by (unfold sD; apply getp_setp_same; eapply getp_lt; exact HppC).
+  all: assert (Hpw : part_with_reltype rt_notes_master (pt_rels PP') = Ok nm) by
+         (unfold part_with_reltype; change (filter (fun r0 => str_eqb (rr_type r0) rt_notes_master) (pt_rels PP'))
+            with (type_filter rt_notes_master (pt_rels pp ++ [mkR rid rt_notes_master (TInt nm) None]));
+          rewrite type_filter_app, Hnone; reflexivity).
+  all: assert (HIE : Inv T (with_nm sD (Some nm))) by
+         (apply inv_with_nm; auto; intros pp0 Hpp0; rewrite HPD in Hpp0; injection Hpp0 as <-; exact Hpw).
+  all: apply (MH_bind T _ _ sD (fun _ s7 => s7 = with_nm sD (Some nm))); [unfold MH, putS; cbn; split; auto|].
+  all: intros [] s7 _ ->; apply MH_ret; auto.
+  all: split; [reflexivity|]; split; [reflexivity|]; split;
+    [change (st_parts (with_nm sD (Some nm))) with (st_parts sD); unfold sD, sC; rewrite !length_setp, HlenB; unfold nm; lia|].
+  all: split;
+    [intros q Hq Hql; change (getp (with_nm sD (Some nm)) q) with (getp sD q); unfold sD;
+     rewrite getp_setp_other by (intros E'; apply Hq; rewrite <- E'; reflexivity);
+     unfold sC; rewrite getp_setp_other by (unfold nm; lia);
+     unfold sB, addp; rewrite getp_app_old by (rewrite HlenA; unfold nm; lia); unfold sA, addp; rewrite getp_app_old; auto|].
+  all: split;
+    [intros sp (pp0 & rid0 & H1 & H2); rewrite Hpp in H1; injection H1 as <-; exists PP', rid0; split; [exact HPD|];
+     unfold PP'; cbn [pt_rels with_rels]; apply related_part_app_old; exact H2|].
+  all: eapply rp1; [apply (pres_reach T _ HIE)|exact HPD|eapply part_with_reltype_target; exact Hpw].
 Qed.
